@@ -1,756 +1,6 @@
-(* GENERATED by locktrans from rpc/*.go -- do not edit.
-   Lock programs (coq/Lock/LockCheck.v) of every function, method and closure.
-   sources:
-     answer.go 14fa726108fccaad6c7987ed7b67a2002a0dac883720ecded371e45a31b5acec
-     export.go 74025d8b2e78278c969a500a1250a8f64c22538d4f500e3e12131acadd503195
-     idgen.go 58906e6cd6ce7ffd391876ba0c0541f81a7c08080b6459ddd5ca5b3a689b9690
-     import.go 672af7c43462b1273937f8abbd64cb083ed656a64ef498d751d91f03e7b9a72c
-     question.go 2612cec27436ea2d23c3ab165839c176843e86ddc40d65601f44f9cb17ade1ba
-     rpc.go 98895283f3a9a9603c7c2e908c5af017c9fd44f3540a189222b937c1fbcec30c
-     transport.go eb465dc5b714e7536ce24e615c3381bb5f13d9e1bf2c25bc9cc63f8d2c1da08d
-   functions whose body cannot touch a lock (calls to them are dropped):
-     Conn.Done Conn.addImport Conn.embargo Conn.fillPayloadCapTable Conn.findEmbargo Conn.findExport Conn.handleReturn$1 Conn.handleReturn$2 Conn.handleReturn$3 Conn.newQuestion Conn.releaseExport Conn.releaseExports Conn.report Conn.reportf Conn.sendCap NewPackedStreamTransport NewStreamTransport NewTransport annotate annotater.errorf answer.AllocResults answer.destroy answer.setBootstrap basicEncoding.NewDecoder basicEncoding.NewEncoder ctxReader.setReadContext ctxWriteCloser.setWriteContext disconnected embargo.Brand embargo.Send$1 errorAnswer errorValue.Load errorValue.Set errorf fail idgen.next idgen.remove importClient.Brand importClient.Send$1 importClient.Send$2 importClient.Send$3 importClient.Send$4 importClient.Send$5 importClient.Send$6 isTimeout newStreamCodec packedEncoding.NewDecoder packedEncoding.NewEncoder parseMessageTarget parseTransform question.PipelineSend$1 question.PipelineSend$2 question.PipelineSend$3 question.PipelineSend$4 question.PipelineSend$5 question.handleCancel$1 question.mark senderLoopback.buildDisembargo streamCodec.Decode streamCodec.Encode streamCodec.SetPartialWriteTimeout transformsEqual transport.Close transport.NewMessage transport.NewMessage$1 transport.NewMessage$2 transport.RecvMessage transport.RecvMessage$1 transport.SetPartialWriteTimeout uintSet.add uintSet.has uintSet.min uintSet.remove unimplementedf
-*)
+(* GENERATED stub: locktrans failed closed on the current source *)
 From Coq Require Import List String.
 From CV Require Import Lock.LockCheck.
 Import ListNotations.
 Local Open Scope string_scope.
-
-(* Conn.Bootstrap  rpc/rpc.go:181 *)
-Definition generated_prog_body_0 : stmt :=
-  (SSeq (SAct (AMark 182)) (SSeq (SAct (ALock 0)) (SSeq (SAct (AMark 183)) (SSeq (SCall 44 (* Conn.startTask *) SSkip (SSeq (SAct (AMark 184)) (SSeq (SAct (AUnlock 0)) (SSeq (SAct (AMark 185)) (SReturn 0))))) (SSeq (SAct (AMark 196)) (SSeq (SCall 41 (* Conn.sendMessage *) SSkip SSkip) (SSeq (SChoice (SSeq (SAct (AMark 207)) (SSeq (SAct (AUnlock 0)) (SSeq (SAct (AMark 187)) (SSeq (SAct (ATasksDone)) (SSeq (SAct (AMark 208)) (SReturn 0)))))) SSkip) (SSeq (SAct (AMark 210)) (SSeq (SAct (ATasksAdd)) (SSeq (SAct (AMark 211)) (SSeq (SSpawn 2 (* Conn.Bootstrap$2 *)) (SSeq (SAct (AMark 215)) (SSeq (SAct (AUnlock 0)) (SSeq (SAct (AMark 187)) (SSeq (SAct (ATasksDone)) (SSeq (SAct (AMark 216)) (SSeq (SReturn 0) (SSeq (SAct (AMark 187)) (SSeq (SAct (ATasksDone)) (SReturn 0)))))))))))))))))))).
-
-(* Conn.Bootstrap$1  rpc/rpc.go:196 *)
-Definition generated_prog_body_1 : stmt :=
-  (SSeq (SChoice (SSeq (SAct (AMark 199)) (SReturn 0)) SSkip) (SSeq (SAct (AMark 202)) (SSeq (SReturn 0) (SReturn 0)))).
-
-(* Conn.Bootstrap$2  rpc/rpc.go:211 *)
-Definition generated_prog_body_2 : stmt :=
-  (SSeq (SAct (AMark 213)) (SSeq (SCall 124 (* question.handleCancel *) SSkip SSkip) (SSeq (SAct (AMark 212)) (SSeq (SAct (ATasksDone)) (SReturn 0))))).
-
-(* Conn.Close  rpc/rpc.go:243 *)
-Definition generated_prog_body_3 : stmt :=
-  (SSeq (SAct (AMark 244)) (SSeq (SAct (ALock 0)) (SSeq (SChoice (SSeq (SAct (AMark 246)) (SSeq (SAct (AUnlock 0)) (SSeq (SAct (AMark 247)) (SReturn 0)))) SSkip) (SSeq (SChoice (SSeq (SAct (AMark 252)) (SSeq (SAct (AUnlock 0)) (SSeq (SAct (AMark 253)) (SSeq (SAct (AWait)) (SSeq (SAct (AMark 254)) (SReturn 0)))))) (SSeq (SAct (AMark 257)) (SSeq (SCall 43 (* Conn.shutdown *) SSkip SSkip) (SSeq (SAct (AMark 257)) (SReturn 0))))) (SReturn 0))))).
-
-(* Conn.Done  rpc/rpc.go:263 *)
-Definition generated_prog_body_4 : stmt :=
-  (SSeq (SAct (AMark 264)) (SSeq (SReturn 0) (SReturn 0))).
-
-(* Conn.addImport  rpc/import.go:52 *)
-Definition generated_prog_body_5 : stmt :=
-  (SSeq (SChoice (SSeq (SAct (AMark 65)) (SReturn 0)) SSkip) (SSeq (SAct (AMark 75)) (SSeq (SReturn 0) (SReturn 0)))).
-
-(* Conn.embargo  rpc/export.go:186 *)
-Definition generated_prog_body_6 : stmt :=
-  (SSeq (SAct (AMark 199)) (SSeq (SReturn 0) (SReturn 0))).
-
-(* Conn.fillPayloadCapTable  rpc/export.go:128 *)
-Definition generated_prog_body_7 : stmt :=
-  (SSeq (SChoice (SSeq (SAct (AMark 130)) SPanic) SSkip) (SSeq (SChoice (SSeq (SAct (AMark 133)) (SReturn 0)) SSkip) (SSeq (SChoice (SSeq (SAct (AMark 137)) (SReturn 0)) SSkip) (SSeq (SLoop (SSeq (SAct (AMark 141)) (SChoice SContinue SSkip))) (SSeq (SAct (AMark 150)) (SSeq (SReturn 0) (SReturn 0))))))).
-
-(* Conn.findEmbargo  rpc/export.go:204 *)
-Definition generated_prog_body_8 : stmt :=
-  (SSeq (SChoice (SSeq (SAct (AMark 206)) (SReturn 0)) SSkip) (SSeq (SAct (AMark 208)) (SSeq (SReturn 0) (SReturn 0)))).
-
-(* Conn.findExport  rpc/export.go:22 *)
-Definition generated_prog_body_9 : stmt :=
-  (SSeq (SChoice (SSeq (SAct (AMark 24)) (SReturn 0)) SSkip) (SSeq (SAct (AMark 26)) (SSeq (SReturn 0) (SReturn 0)))).
-
-(* Conn.handleBootstrap  rpc/rpc.go:463 *)
-Definition generated_prog_body_10 : stmt :=
-  (SSeq (SAct (AMark 464)) (SSeq (SAct (ALock 0)) (SSeq (SChoice (SSeq (SAct (AMark 466)) (SSeq (SAct (AUnlock 0)) (SSeq (SAct (AMark 467)) (SReturn 0)))) SSkip) (SSeq (SAct (AMark 469)) (SSeq (SCall 45 (* Conn.tryLockSender *) SSkip (SSeq (SAct (AMark 471)) (SSeq (SAct (AUnlock 0)) (SSeq (SAct (AMark 472)) (SReturn 0))))) (SSeq (SAct (AMark 474)) (SSeq (SAct (AUnlock 0)) (SSeq (SAct (AMark 475)) (SSeq (SCall 30 (* Conn.newReturn *) SSkip SSkip) (SSeq (SChoice (SSeq (SAct (AMark 478)) (SSeq (SAct (ALock 0)) (SSeq (SAct (AMark 480)) (SSeq (SCall 46 (* Conn.unlockSender *) SSkip SSkip) (SSeq (SAct (AMark 481)) (SSeq (SAct (AUnlock 0)) (SSeq (SAct (AMark 483)) (SReturn 0)))))))) SSkip) (SSeq (SAct (AMark 487)) (SSeq (SAct (ACallout)) (SSeq (SAct (AMark 488)) (SSeq (SAct (ALock 0)) (SSeq (SChoice (SSeq (SAct (AMark 498)) (SSeq (SCall 57 (* answer.sendException *) SSkip SSkip) (SSeq (SAct (AMark 499)) (SSeq (SCall 46 (* Conn.unlockSender *) SSkip SSkip) (SSeq (SAct (AMark 500)) (SSeq (SAct (AUnlock 0)) (SSeq (SAct (AMark 501)) (SSeq (SCall 128 (* releaseList.release *) SSkip SSkip) (SSeq (SAct (AMark 502)) (SReturn 0)))))))))) SSkip) (SSeq (SAct (AMark 504)) (SSeq (SChoice (SSeq (SAct (AMark 505)) (SSeq (SCall 57 (* answer.sendException *) SSkip SSkip) (SSeq (SAct (AMark 506)) (SSeq (SCall 46 (* Conn.unlockSender *) SSkip SSkip) (SSeq (SAct (AMark 507)) (SSeq (SAct (AUnlock 0)) (SSeq (SAct (AMark 508)) (SSeq (SCall 128 (* releaseList.release *) SSkip SSkip) (SSeq (SAct (AMark 509)) (SReturn 0)))))))))) SSkip) (SSeq (SAct (AMark 511)) (SSeq (SCall 58 (* answer.sendReturn *) SSkip SSkip) (SSeq (SAct (AMark 512)) (SSeq (SCall 46 (* Conn.unlockSender *) SSkip SSkip) (SSeq (SAct (AMark 513)) (SSeq (SAct (AUnlock 0)) (SSeq (SAct (AMark 514)) (SSeq (SCall 128 (* releaseList.release *) SSkip SSkip) (SSeq (SChoice (SSeq (SAct (AMark 518)) SPanic) SSkip) (SSeq (SAct (AMark 520)) (SSeq (SReturn 0) (SReturn 0))))))))))))))))))))))))))))).
-
-(* Conn.handleCall  rpc/rpc.go:523 *)
-Definition generated_prog_body_11 : stmt :=
-  (SSeq (SChoice (SSeq (SAct (AMark 528)) (SSeq (SAct (ALock 0)) (SSeq (SAct (AMark 529)) (SSeq (SCall 41 (* Conn.sendMessage *) SSkip SSkip) (SSeq (SAct (AMark 539)) (SSeq (SAct (AUnlock 0)) (SSeq (SAct (AMark 540)) (SSeq (SAct (ATransportX)) (SSeq (SAct (AMark 544)) (SReturn 0)))))))))) SSkip) (SSeq (SAct (AMark 548)) (SSeq (SAct (ALock 0)) (SSeq (SChoice (SSeq (SAct (AMark 550)) (SSeq (SAct (AUnlock 0)) (SSeq (SAct (AMark 551)) (SSeq (SAct (ATransportX)) (SSeq (SAct (AMark 552)) (SReturn 0)))))) SSkip) (SSeq (SAct (AMark 554)) (SSeq (SCall 45 (* Conn.tryLockSender *) SSkip (SSeq (SAct (AMark 556)) (SSeq (SAct (AUnlock 0)) (SSeq (SAct (AMark 557)) (SReturn 0))))) (SSeq (SAct (AMark 560)) (SSeq (SCall 31 (* Conn.parseCall *) SSkip SSkip) (SSeq (SAct (AMark 563)) (SSeq (SAct (AUnlock 0)) (SSeq (SAct (AMark 564)) (SSeq (SCall 30 (* Conn.newReturn *) SSkip SSkip) (SSeq (SChoice (SSeq (SAct (AMark 567)) (SSeq (SAct (ALock 0)) (SSeq (SAct (AMark 569)) (SSeq (SCall 46 (* Conn.unlockSender *) SSkip SSkip) (SSeq (SAct (AMark 570)) (SSeq (SAct (AUnlock 0)) (SSeq (SAct (AMark 572)) (SSeq (SCall 67 (* clearCapTable *) SSkip SSkip) (SSeq (SAct (AMark 573)) (SSeq (SAct (ATransportX)) (SSeq (SAct (AMark 574)) (SReturn 0)))))))))))) SSkip) (SSeq (SAct (AMark 580)) (SSeq (SAct (ALock 0)) (SSeq (SChoice (SSeq (SAct (AMark 591)) (SSeq (SCall 57 (* answer.sendException *) SSkip SSkip) (SSeq (SAct (AMark 592)) (SSeq (SCall 46 (* Conn.unlockSender *) SSkip SSkip) (SSeq (SAct (AMark 593)) (SSeq (SAct (AUnlock 0)) (SSeq (SAct (AMark 595)) (SSeq (SCall 128 (* releaseList.release *) SSkip SSkip) (SSeq (SAct (AMark 596)) (SSeq (SCall 67 (* clearCapTable *) SSkip SSkip) (SSeq (SAct (AMark 597)) (SSeq (SAct (ATransportX)) (SSeq (SAct (AMark 598)) (SReturn 0)))))))))))))) SSkip) (SSeq (SChoice (SSeq (SAct (AMark 611)) (SSeq (SChoice (SSeq (SAct (AMark 616)) (SSeq (SAct (AUnlock 0)) (SSeq (SAct (AMark 617)) (SSeq (SAct (ATransport)) (SSeq (SAct (AMark 618)) (SSeq (SAct (ALock 0)) (SSeq (SAct (AMark 619)) (SSeq (SCall 46 (* Conn.unlockSender *) SSkip SSkip) (SSeq (SAct (AMark 620)) (SSeq (SAct (AUnlock 0)) (SSeq (SAct (AMark 621)) (SSeq (SCall 67 (* clearCapTable *) SSkip SSkip) (SSeq (SAct (AMark 622)) (SSeq (SAct (ATransportX)) (SSeq (SAct (AMark 623)) (SReturn 0)))))))))))))))) SSkip) (SSeq (SAct (AMark 625)) (SSeq (SAct (ATasksAdd)) (SSeq (SAct (AMark 628)) (SSeq (SCall 46 (* Conn.unlockSender *) SSkip SSkip) (SSeq (SAct (AMark 629)) (SSeq (SAct (AUnlock 0)) (SSeq (SAct (AMark 630)) (SSeq (SAct (ATasksGive)) (SSeq (SAct (AMark 630)) (SSeq (SAct (ACallout)) (SSeq (SAct (AMark 639)) (SSeq (SCall 60 (* answer.setPipelineCaller *) SSkip SSkip) (SSeq (SAct (AMark 640)) (SReturn 0)))))))))))))))) (SChoice (SSeq (SChoice (SSeq (SAct (AMark 647)) (SSeq (SAct (AUnlock 0)) (SSeq (SAct (AMark 648)) (SSeq (SAct (ATransport)) (SSeq (SAct (AMark 649)) (SSeq (SAct (ALock 0)) (SSeq (SAct (AMark 650)) (SSeq (SCall 46 (* Conn.unlockSender *) SSkip SSkip) (SSeq (SAct (AMark 651)) (SSeq (SAct (AUnlock 0)) (SSeq (SAct (AMark 652)) (SSeq (SCall 67 (* clearCapTable *) SSkip SSkip) (SSeq (SAct (AMark 653)) (SSeq (SAct (ATransportX)) (SSeq (SAct (AMark 654)) (SReturn 0)))))))))))))))) SSkip) (SSeq (SChoice (SSeq (SChoice (SSeq (SAct (AMark 659)) (SSeq (SCall 57 (* answer.sendException *) SSkip SSkip) (SSeq (SAct (AMark 660)) (SSeq (SCall 46 (* Conn.unlockSender *) SSkip SSkip) (SSeq (SAct (AMark 661)) (SSeq (SAct (AUnlock 0)) (SSeq (SAct (AMark 662)) (SSeq (SCall 128 (* releaseList.release *) SSkip SSkip) (SSeq (SAct (AMark 663)) (SSeq (SCall 67 (* clearCapTable *) SSkip SSkip) (SSeq (SAct (AMark 664)) (SSeq (SAct (ATransportX)) (SSeq (SAct (AMark 665)) (SReturn 0)))))))))))))) SSkip) (SSeq (SChoice (SSeq (SAct (AMark 674)) (SSeq (SCall 57 (* answer.sendException *) SSkip SSkip) (SSeq (SAct (AMark 675)) (SSeq (SCall 46 (* Conn.unlockSender *) SSkip SSkip) (SSeq (SAct (AMark 676)) (SSeq (SAct (AUnlock 0)) (SSeq (SAct (AMark 677)) (SSeq (SCall 128 (* releaseList.release *) SSkip SSkip) (SSeq (SAct (AMark 678)) (SSeq (SCall 67 (* clearCapTable *) SSkip SSkip) (SSeq (SAct (AMark 679)) (SSeq (SAct (ATransportX)) (SSeq (SAct (AMark 681)) (SReturn 0)))))))))))))) SSkip) (SSeq (SChoice (SSeq (SAct (AMark 686)) (SSeq (SCall 57 (* answer.sendException *) SSkip SSkip) (SSeq (SAct (AMark 687)) (SSeq (SCall 46 (* Conn.unlockSender *) SSkip SSkip) (SSeq (SAct (AMark 688)) (SSeq (SAct (AUnlock 0)) (SSeq (SAct (AMark 689)) (SSeq (SCall 128 (* releaseList.release *) SSkip SSkip) (SSeq (SAct (AMark 690)) (SSeq (SCall 67 (* clearCapTable *) SSkip SSkip) (SSeq (SAct (AMark 691)) (SSeq (SAct (ATransportX)) (SSeq (SAct (AMark 692)) (SReturn 0)))))))))))))) SSkip) (SSeq (SChoice (SAct (AMark 698)) SSkip) (SSeq (SAct (AMark 704)) (SSeq (SAct (ATasksAdd)) (SSeq (SAct (AMark 707)) (SSeq (SCall 46 (* Conn.unlockSender *) SSkip SSkip) (SSeq (SAct (AMark 708)) (SSeq (SAct (AUnlock 0)) (SSeq (SAct (AMark 709)) (SSeq (SAct (ATasksGive)) (SSeq (SAct (AMark 709)) (SSeq (SAct (ACallout)) (SSeq (SAct (AMark 715)) (SCall 60 (* answer.setPipelineCaller *) SSkip SSkip)))))))))))))))) (SSeq (SAct (AMark 722)) (SSeq (SAct (ATasksAdd)) (SSeq (SAct (AMark 723)) (SSeq (SCall 46 (* Conn.unlockSender *) SSkip SSkip) (SSeq (SAct (AMark 724)) (SSeq (SAct (AUnlock 0)) (SSeq (SAct (AMark 725)) (SSeq (SAct (ATasksGive)) (SSeq (SAct (AMark 725)) (SSeq (SAct (ACallout)) (SSeq (SAct (AMark 732)) (SCall 60 (* answer.setPipelineCaller *) SSkip SSkip))))))))))))) (SSeq (SAct (AMark 734)) (SReturn 0)))) (SSeq (SAct (AMark 736)) SPanic))) (SReturn 0)))))))))))))))))).
-
-(* Conn.handleCall$1  rpc/rpc.go:529 *)
-Definition generated_prog_body_12 : stmt :=
-  (SSeq (SChoice (SSeq (SAct (AMark 532)) (SReturn 0)) SSkip) (SSeq (SChoice (SSeq (SAct (AMark 535)) (SReturn 0)) SSkip) (SSeq (SAct (AMark 537)) (SSeq (SReturn 0) (SReturn 0))))).
-
-(* Conn.handleCall$2  rpc/rpc.go:601 *)
-Definition generated_prog_body_13 : stmt :=
-  (SSeq (SChoice (SSeq (SAct (AMark 603)) (SReturn 0)) SSkip) (SSeq (SAct (AMark 606)) (SSeq (SCall 67 (* clearCapTable *) SSkip SSkip) (SSeq (SAct (AMark 607)) (SSeq (SAct (ATransportX)) (SReturn 0)))))).
-
-(* Conn.handleDisembargo  rpc/rpc.go:1176 *)
-Definition generated_prog_body_14 : stmt :=
-  (SSeq (SChoice (SSeq (SAct (AMark 1179)) (SReturn 0)) SSkip) (SSeq (SAct (AMark 1182)) (SSeq (SChoice (SSeq (SAct (AMark 1183)) (SReturn 0)) SSkip) (SSeq (SChoice (SSeq (SAct (AMark 1189)) (SSeq (SAct (ALock 0)) (SSeq (SAct (AMark 1190)) (SSeq (SChoice (SSeq (SAct (AMark 1192)) (SSeq (SAct (AUnlock 0)) (SSeq (SAct (AMark 1193)) (SReturn 0)))) SSkip) (SSeq (SAct (AMark 1198)) (SSeq (SAct (AUnlock 0)) (SSeq (SAct (AMark 1199)) (SCall 85 (* embargo.lift *) SSkip SSkip)))))))) (SChoice (SSeq (SAct (AMark 1201)) (SSeq (SAct (ALock 0)) (SSeq (SChoice (SSeq (SAct (AMark 1203)) (SSeq (SAct (AUnlock 0)) (SSeq (SAct (AMark 1204)) (SReturn 0)))) SSkip) (SSeq (SChoice (SSeq (SAct (AMark 1208)) (SSeq (SAct (AUnlock 0)) (SSeq (SAct (AMark 1209)) (SReturn 0)))) SSkip) (SSeq (SChoice (SSeq (SAct (AMark 1212)) (SSeq (SAct (AUnlock 0)) (SSeq (SAct (AMark 1213)) (SReturn 0)))) SSkip) (SSeq (SChoice (SSeq (SAct (AMark 1216)) (SSeq (SAct (AUnlock 0)) (SSeq (SAct (AMark 1217)) (SReturn 0)))) SSkip) (SSeq (SChoice (SSeq (SAct (AMark 1221)) (SSeq (SAct (AUnlock 0)) (SSeq (SAct (AMark 1222)) (SReturn 0)))) SSkip) (SSeq (SChoice (SSeq (SAct (AMark 1226)) (SSeq (SAct (AUnlock 0)) (SSeq (SAct (AMark 1227)) (SReturn 0)))) SSkip) (SSeq (SChoice (SSeq (SAct (AMark 1231)) (SSeq (SAct (AUnlock 0)) (SSeq (SAct (AMark 1232)) (SReturn 0)))) SSkip) (SSeq (SAct (AMark 1235)) (SSeq (SAct (AUnlock 0)) (SSeq (SAct (AMark 1236)) (SSeq (SAct (ACallout)) (SSeq (SAct (AMark 1237)) (SSeq (SAct (ALock 0)) (SSeq (SChoice (SSeq (SAct (AMark 1239)) (SSeq (SAct (AUnlock 0)) (SSeq (SAct (AMark 1240)) (SSeq (SAct (ACallout)) (SSeq (SAct (AMark 1241)) (SReturn 0)))))) SSkip) (SSeq (SAct (AMark 1248)) (SSeq (SCall 41 (* Conn.sendMessage *) SSkip SSkip) (SSeq (SAct (AMark 1261)) (SSeq (SAct (AUnlock 0)) (SSeq (SAct (AMark 1262)) (SAct (ACallout))))))))))))))))))))))) (SSeq (SAct (AMark 1268)) (SSeq (SAct (ALock 0)) (SSeq (SAct (AMark 1269)) (SSeq (SCall 41 (* Conn.sendMessage *) SSkip SSkip) (SSeq (SAct (AMark 1279)) (SAct (AUnlock 0))))))))) (SSeq (SAct (AMark 1284)) (SSeq (SReturn 0) (SReturn 0))))))).
-
-(* Conn.handleDisembargo$1  rpc/rpc.go:1248 *)
-Definition generated_prog_body_15 : stmt :=
-  (SSeq (SChoice (SSeq (SAct (AMark 1251)) (SReturn 0)) SSkip) (SSeq (SChoice (SSeq (SAct (AMark 1255)) (SReturn 0)) SSkip) (SSeq (SAct (AMark 1259)) (SSeq (SReturn 0) (SReturn 0))))).
-
-(* Conn.handleDisembargo$2  rpc/rpc.go:1269 *)
-Definition generated_prog_body_16 : stmt :=
-  (SSeq (SChoice (SSeq (SAct (AMark 1272)) (SReturn 0)) SSkip) (SSeq (SChoice (SSeq (SAct (AMark 1275)) (SReturn 0)) SSkip) (SSeq (SAct (AMark 1277)) (SSeq (SReturn 0) (SReturn 0))))).
-
-(* Conn.handleFinish  rpc/rpc.go:1042 *)
-Definition generated_prog_body_17 : stmt :=
-  (SSeq (SAct (AMark 1043)) (SSeq (SAct (ALock 0)) (SSeq (SChoice (SSeq (SAct (AMark 1046)) (SSeq (SAct (AUnlock 0)) (SSeq (SAct (AMark 1047)) (SReturn 0)))) SSkip) (SSeq (SChoice (SSeq (SAct (AMark 1050)) (SSeq (SAct (AUnlock 0)) (SSeq (SAct (AMark 1051)) (SReturn 0)))) SSkip) (SSeq (SChoice (SSeq (SAct (AMark 1061)) (SSeq (SAct (AUnlock 0)) (SSeq (SAct (AMark 1062)) (SReturn 0)))) SSkip) (SSeq (SAct (AMark 1066)) (SSeq (SChoice (SSeq (SAct (AMark 1068)) (SSeq (SCall 26 (* Conn.lockSender *) SSkip SSkip) (SSeq (SAct (AMark 1069)) (SSeq (SAct (AUnlock 0)) (SSeq (SAct (AMark 1070)) (SSeq (SAct (ATransport)) (SSeq (SAct (AMark 1071)) (SSeq (SAct (ALock 0)) (SSeq (SAct (AMark 1072)) (SCall 46 (* Conn.unlockSender *) SSkip SSkip)))))))))) SSkip) (SSeq (SAct (AMark 1074)) (SSeq (SAct (AUnlock 0)) (SSeq (SAct (AMark 1075)) (SSeq (SCall 128 (* releaseList.release *) SSkip SSkip) (SSeq (SChoice (SSeq (SAct (AMark 1077)) (SReturn 0)) SSkip) (SSeq (SAct (AMark 1079)) (SSeq (SReturn 0) (SReturn 0))))))))))))))).
-
-(* Conn.handleRelease  rpc/rpc.go:1165 *)
-Definition generated_prog_body_18 : stmt :=
-  (SSeq (SAct (AMark 1166)) (SSeq (SAct (ALock 0)) (SSeq (SAct (AMark 1168)) (SSeq (SAct (AUnlock 0)) (SSeq (SChoice (SSeq (SAct (AMark 1170)) (SReturn 0)) SSkip) (SSeq (SAct (AMark 1172)) (SSeq (SAct (ACallout)) (SSeq (SAct (AMark 1173)) (SSeq (SReturn 0) (SReturn 0)))))))))).
-
-(* Conn.handleReturn  rpc/rpc.go:818 *)
-Definition generated_prog_body_19 : stmt :=
-  (SSeq (SAct (AMark 819)) (SSeq (SAct (ALock 0)) (SSeq (SChoice (SSeq (SAct (AMark 822)) (SSeq (SAct (AUnlock 0)) (SSeq (SAct (AMark 823)) (SSeq (SAct (ATransportX)) (SSeq (SAct (AMark 824)) (SReturn 0)))))) SSkip) (SSeq (SChoice (SSeq (SAct (AMark 832)) (SSeq (SAct (AUnlock 0)) (SSeq (SAct (AMark 833)) (SSeq (SAct (ATransportX)) (SSeq (SAct (AMark 834)) (SReturn 0)))))) SSkip) (SSeq (SChoice (SSeq (SChoice (SSeq (SChoice (SAct (AMark 845)) SSkip) (SSeq (SAct (AMark 847)) (SSeq (SAct (AUnlock 0)) (SSeq (SAct (AMark 848)) (SAct (ATransportX)))))) (SSeq (SAct (AMark 850)) (SSeq (SAct (AUnlock 0)) (SSeq (SAct (AMark 851)) (SSeq (SAct (ATransportX)) (SSeq (SAct (AMark 852)) (SSeq (SAct (AWait)) (SSeq (SAct (AMark 853)) (SSeq (SAct (ALock 0)) (SSeq (SChoice (SAct (AMark 855)) SSkip) (SSeq (SAct (AMark 857)) (SAct (AUnlock 0))))))))))))) (SSeq (SAct (AMark 859)) (SReturn 0))) SSkip) (SSeq (SAct (AMark 861)) (SSeq (SCall 32 (* Conn.parseReturn *) SSkip SSkip) (SSeq (SChoice (SSeq (SAct (AMark 868)) (SSeq (SAct (AUnlock 0)) (SSeq (SAct (AMark 869)) (SSeq (SAct (ACallout)) (SSeq (SAct (AMark 870)) (SSeq (SAct (ACallout)) (SSeq (SAct (AMark 871)) (SSeq (SAct (ACallout)) (SSeq (SAct (AMark 872)) (SSeq (SCall 67 (* clearCapTable *) SSkip SSkip) (SSeq (SAct (AMark 873)) (SSeq (SAct (ATransportX)) (SSeq (SAct (AMark 874)) (SAct (ALock 0))))))))))))))) (SChoice (SSeq (SAct (AMark 879)) (SSeq (SAct (AUnlock 0)) (SSeq (SAct (AMark 880)) (SSeq (SAct (ACallout)) (SSeq (SAct (AMark 881)) (SSeq (SAct (ACallout)) (SSeq (SAct (AMark 882)) (SSeq (SAct (ACallout)) (SSeq (SAct (AMark 883)) (SSeq (SCall 67 (* clearCapTable *) SSkip SSkip) (SSeq (SAct (AMark 884)) (SSeq (SAct (ATransportX)) (SSeq (SAct (AMark 885)) (SAct (ALock 0))))))))))))))) (SChoice (SSeq (SAct (AMark 890)) (SSeq (SAct (AUnlock 0)) (SSeq (SAct (AMark 891)) (SSeq (SAct (ACallout)) (SSeq (SAct (AMark 892)) (SSeq (SCall 67 (* clearCapTable *) SSkip SSkip) (SSeq (SAct (AMark 893)) (SSeq (SAct (ATransportX)) (SSeq (SAct (AMark 894)) (SAct (ALock 0))))))))))) (SSeq (SAct (AMark 901)) (SSeq (SAct (AUnlock 0)) (SSeq (SAct (AMark 902)) (SSeq (SAct (ACallout)) (SSeq (SAct (AMark 903)) (SAct (ALock 0)))))))))) (SSeq (SAct (AMark 905)) (SSeq (SCall 45 (* Conn.tryLockSender *) SSkip (SSeq (SAct (AMark 907)) (SSeq (SAct (AUnlock 0)) (SSeq (SAct (AMark 909)) (SReturn 0))))) (SSeq (SAct (AMark 911)) (SSeq (SAct (AUnlock 0)) (SSeq (SLoop (SSeq (SAct (AMark 918)) (SSeq (SAct (ATransport)) (SSeq (SChoice (SSeq (SAct (AMark 920)) SContinue) SSkip) (SSeq (SAct (AMark 923)) (SSeq (SChoice (SSeq (SAct (AMark 924)) (SSeq (SAct (ATransport)) (SSeq (SAct (AMark 925)) SContinue))) SSkip) (SSeq (SAct (AMark 928)) (SSeq (SAct (ATransport)) (SSeq (SAct (AMark 929)) (SSeq (SAct (ATransport)) (SChoice (SSeq (SAct (AMark 931)) SContinue) SSkip))))))))))) (SSeq (SAct (AMark 938)) (SSeq (SAct (ATransport)) (SSeq (SChoice (SSeq (SAct (AMark 940)) (SSeq (SAct (ALock 0)) (SSeq (SAct (AMark 941)) (SSeq (SCall 46 (* Conn.unlockSender *) SSkip SSkip) (SSeq (SAct (AMark 943)) (SSeq (SAct (AUnlock 0)) (SSeq (SAct (AMark 945)) (SReturn 0)))))))) SSkip) (SSeq (SChoice (SSeq (SAct (AMark 949)) (SSeq (SAct (ATransport)) (SSeq (SAct (AMark 950)) (SSeq (SAct (ALock 0)) (SSeq (SAct (AMark 951)) (SSeq (SCall 46 (* Conn.unlockSender *) SSkip SSkip) (SSeq (SAct (AMark 953)) (SSeq (SAct (AUnlock 0)) (SSeq (SAct (AMark 955)) (SReturn 0)))))))))) SSkip) (SSeq (SAct (AMark 959)) (SSeq (SAct (ATransport)) (SSeq (SAct (AMark 960)) (SSeq (SAct (ATransport)) (SSeq (SChoice (SSeq (SAct (AMark 962)) (SSeq (SAct (ALock 0)) (SSeq (SAct (AMark 963)) (SSeq (SCall 46 (* Conn.unlockSender *) SSkip SSkip) (SSeq (SAct (AMark 965)) (SSeq (SAct (AUnlock 0)) (SSeq (SAct (AMark 967)) (SReturn 0)))))))) SSkip) (SSeq (SAct (AMark 971)) (SSeq (SAct (ALock 0)) (SSeq (SAct (AMark 972)) (SSeq (SCall 46 (* Conn.unlockSender *) SSkip SSkip) (SSeq (SAct (AMark 976)) (SSeq (SAct (AUnlock 0)) (SSeq (SAct (AMark 977)) (SSeq (SReturn 0) (SReturn 0))))))))))))))))))))))))))))))).
-
-(* Conn.handleReturn$1  rpc/rpc.go:867 *)
-Definition generated_prog_body_20 : stmt :=
-  (SReturn 0).
-
-(* Conn.handleReturn$2  rpc/rpc.go:878 *)
-Definition generated_prog_body_21 : stmt :=
-  (SReturn 0).
-
-(* Conn.handleReturn$3  rpc/rpc.go:889 *)
-Definition generated_prog_body_22 : stmt :=
-  (SReturn 0).
-
-(* Conn.handleReturn$4  rpc/rpc.go:897 *)
-Definition generated_prog_body_23 : stmt :=
-  (SSeq (SAct (AMark 898)) (SSeq (SCall 67 (* clearCapTable *) SSkip SSkip) (SSeq (SAct (AMark 899)) (SSeq (SAct (ATransportX)) (SReturn 0))))).
-
-(* Conn.handleUnknownMessage  rpc/rpc.go:1287 *)
-Definition generated_prog_body_24 : stmt :=
-  (SSeq (SAct (AMark 1289)) (SSeq (SAct (ALock 0)) (SSeq (SAct (AMark 1290)) (SSeq (SCall 41 (* Conn.sendMessage *) SSkip SSkip) (SSeq (SAct (AMark 1293)) (SSeq (SAct (AUnlock 0)) (SSeq (SAct (AMark 1297)) (SSeq (SReturn 0) (SReturn 0))))))))).
-
-(* Conn.handleUnknownMessage$1  rpc/rpc.go:1290 *)
-Definition generated_prog_body_25 : stmt :=
-  (SSeq (SAct (AMark 1291)) (SSeq (SReturn 0) (SReturn 0))).
-
-(* Conn.lockSender  rpc/rpc.go:1378 *)
-Definition generated_prog_body_26 : stmt :=
-  (SSeq (SLoop (SSeq (SChoice SBreak SSkip) (SSeq (SAct (AMark 1384)) (SSeq (SAct (AUnlock 0)) (SSeq (SAct (AMark 1385)) (SSeq (SAct (AWait)) (SSeq (SAct (AMark 1386)) (SAct (ALock 0))))))))) (SSeq (SAct (AMark 1388)) (SSeq (SAct (AAcqSender)) (SReturn 0)))).
-
-(* Conn.newImportCallMessage  rpc/import.go:165 *)
-Definition generated_prog_body_27 : stmt :=
-  (SSeq (SChoice (SSeq (SAct (AMark 168)) (SReturn 0)) SSkip) (SSeq (SChoice (SSeq (SAct (AMark 175)) (SReturn 0)) SSkip) (SSeq (SChoice (SSeq (SAct (AMark 180)) (SReturn 0)) SSkip) (SSeq (SChoice (SSeq (SAct (AMark 184)) (SReturn 0)) SSkip) (SSeq (SChoice (SSeq (SAct (AMark 187)) (SReturn 0)) SSkip) (SSeq (SChoice (SSeq (SAct (AMark 191)) (SReturn 0)) SSkip) (SSeq (SAct (AMark 194)) (SSeq (SAct (ACallout)) (SSeq (SChoice (SSeq (SLoop (SSeq (SAct (AMark 196)) (SAct (ACallout)))) (SSeq (SAct (AMark 199)) (SReturn 0))) SSkip) (SSeq (SAct (AMark 201)) (SSeq (SCall 90 (* extractCapTable *) SSkip SSkip) (SSeq (SAct (AMark 202)) (SSeq (SAct (ALock 0)) (SSeq (SAct (AMark 205)) (SSeq (SAct (AUnlock 0)) (SSeq (SAct (AMark 206)) (SSeq (SCall 128 (* releaseList.release *) SSkip SSkip) (SSeq (SChoice (SSeq (SAct (AMark 208)) (SReturn 0)) SSkip) (SSeq (SAct (AMark 210)) (SSeq (SReturn 0) (SReturn 0))))))))))))))))))))).
-
-(* Conn.newPipelineCallMessage  rpc/question.go:195 *)
-Definition generated_prog_body_28 : stmt :=
-  (SSeq (SChoice (SSeq (SAct (AMark 198)) (SReturn 0)) SSkip) (SSeq (SChoice (SSeq (SAct (AMark 206)) (SReturn 0)) SSkip) (SSeq (SChoice (SSeq (SAct (AMark 210)) (SReturn 0)) SSkip) (SSeq (SChoice (SSeq (SAct (AMark 215)) (SReturn 0)) SSkip) (SSeq (SLoop SSkip) (SSeq (SChoice (SSeq (SAct (AMark 223)) (SReturn 0)) SSkip) (SSeq (SChoice (SSeq (SAct (AMark 227)) (SReturn 0)) SSkip) (SSeq (SChoice (SSeq (SAct (AMark 230)) (SReturn 0)) SSkip) (SSeq (SChoice (SSeq (SAct (AMark 234)) (SReturn 0)) SSkip) (SSeq (SAct (AMark 237)) (SSeq (SAct (ACallout)) (SSeq (SChoice (SSeq (SLoop (SSeq (SAct (AMark 239)) (SAct (ACallout)))) (SSeq (SAct (AMark 242)) (SReturn 0))) SSkip) (SSeq (SAct (AMark 244)) (SSeq (SCall 90 (* extractCapTable *) SSkip SSkip) (SSeq (SAct (AMark 245)) (SSeq (SAct (ALock 0)) (SSeq (SAct (AMark 248)) (SSeq (SAct (AUnlock 0)) (SSeq (SAct (AMark 249)) (SSeq (SCall 128 (* releaseList.release *) SSkip SSkip) (SSeq (SChoice (SSeq (SAct (AMark 251)) (SReturn 0)) SSkip) (SSeq (SAct (AMark 253)) (SSeq (SReturn 0) (SReturn 0)))))))))))))))))))))))).
-
-(* Conn.newQuestion  rpc/question.go:47 *)
-Definition generated_prog_body_29 : stmt :=
-  (SSeq (SAct (AMark 59)) (SSeq (SReturn 0) (SReturn 0))).
-
-(* Conn.newReturn  rpc/answer.go:95 *)
-Definition generated_prog_body_30 : stmt :=
-  (SSeq (SAct (AMark 96)) (SSeq (SAct (ATransport)) (SSeq (SChoice (SSeq (SAct (AMark 98)) (SReturn 0)) SSkip) (SSeq (SChoice (SSeq (SAct (AMark 102)) (SSeq (SAct (ATransport)) (SSeq (SAct (AMark 103)) (SReturn 0)))) SSkip) (SSeq (SAct (AMark 105)) (SSeq (SReturn 0) (SReturn 0))))))).
-
-(* Conn.parseCall  rpc/rpc.go:753 *)
-Definition generated_prog_body_31 : stmt :=
-  (SSeq (SChoice (SSeq (SAct (AMark 760)) (SReturn 0)) SSkip) (SSeq (SAct (AMark 762)) (SSeq (SCall 35 (* Conn.recvPayload *) SSkip SSkip) (SSeq (SChoice (SSeq (SAct (AMark 764)) (SReturn 0)) SSkip) (SSeq (SChoice (SSeq (SAct (AMark 769)) (SReturn 0)) SSkip) (SSeq (SAct (AMark 771)) (SSeq (SChoice (SSeq (SAct (AMark 772)) (SReturn 0)) SSkip) (SSeq (SAct (AMark 774)) (SSeq (SReturn 0) (SReturn 0)))))))))).
-
-(* Conn.parseReturn  rpc/rpc.go:980 *)
-Definition generated_prog_body_32 : stmt :=
-  (SSeq (SChoice (SSeq (SChoice (SSeq (SAct (AMark 985)) (SReturn 0)) SSkip) (SSeq (SAct (AMark 987)) (SSeq (SCall 35 (* Conn.recvPayload *) SSkip SSkip) (SSeq (SChoice (SSeq (SAct (AMark 989)) (SReturn 0)) SSkip) (SSeq (SLoop (SSeq (SChoice SContinue SSkip) (SSeq (SChoice SSkip (SAct (AMark 1002))) (SSeq (SChoice SSkip (SAct (AMark 1002))) (SChoice SContinue SSkip))))) (SSeq (SAct (AMark 1014)) (SReturn 0))))))) (SChoice (SSeq (SChoice (SSeq (SAct (AMark 1021)) (SReturn 0)) SSkip) (SSeq (SChoice (SSeq (SAct (AMark 1025)) (SReturn 0)) SSkip) (SSeq (SAct (AMark 1027)) (SReturn 0)))) (SSeq (SAct (AMark 1030)) (SReturn 0)))) (SReturn 0)).
-
-(* Conn.receive  rpc/rpc.go:357 *)
-Definition generated_prog_body_33 : stmt :=
-  (SSeq (SLoop (SSeq (SAct (AMark 359)) (SSeq (SAct (ATransportX)) (SSeq (SChoice (SSeq (SAct (AMark 361)) (SReturn 0)) SSkip) (SChoice SSkip (SChoice (SSeq (SChoice (SSeq (SAct (AMark 369)) (SSeq (SAct (ATransportX)) (SSeq (SAct (AMark 371)) (SReturn 0)))) SSkip) (SSeq (SChoice (SSeq (SAct (AMark 375)) (SSeq (SAct (ATransportX)) (SSeq (SAct (AMark 377)) (SReturn 0)))) SSkip) (SSeq (SAct (AMark 380)) (SSeq (SAct (ATransportX)) (SSeq (SAct (AMark 382)) (SReturn 0)))))) (SChoice (SSeq (SChoice (SSeq (SAct (AMark 386)) (SSeq (SAct (ATransportX)) (SSeq (SAct (AMark 387)) SContinue))) SSkip) (SSeq (SAct (AMark 391)) (SSeq (SAct (ATransportX)) (SSeq (SAct (AMark 392)) (SSeq (SCall 10 (* Conn.handleBootstrap *) SSkip SSkip) (SChoice (SSeq (SAct (AMark 393)) (SReturn 0)) SSkip)))))) (SChoice (SSeq (SChoice (SSeq (SAct (AMark 398)) (SSeq (SAct (ATransportX)) (SSeq (SAct (AMark 399)) SContinue))) SSkip) (SSeq (SAct (AMark 402)) (SSeq (SCall 11 (* Conn.handleCall *) SSkip SSkip) (SChoice (SSeq (SAct (AMark 403)) (SReturn 0)) SSkip)))) (SChoice (SSeq (SChoice (SSeq (SAct (AMark 408)) (SSeq (SAct (ATransportX)) (SSeq (SAct (AMark 409)) SContinue))) SSkip) (SSeq (SAct (AMark 412)) (SSeq (SCall 19 (* Conn.handleReturn *) SSkip SSkip) (SChoice (SSeq (SAct (AMark 413)) (SReturn 0)) SSkip)))) (SChoice (SSeq (SChoice (SSeq (SAct (AMark 418)) (SSeq (SAct (ATransportX)) (SSeq (SAct (AMark 419)) SContinue))) SSkip) (SSeq (SAct (AMark 424)) (SSeq (SAct (ATransportX)) (SSeq (SAct (AMark 425)) (SSeq (SCall 17 (* Conn.handleFinish *) SSkip SSkip) (SChoice (SSeq (SAct (AMark 426)) (SReturn 0)) SSkip)))))) (SChoice (SSeq (SChoice (SSeq (SAct (AMark 431)) (SSeq (SAct (ATransportX)) (SSeq (SAct (AMark 432)) SContinue))) SSkip) (SSeq (SAct (AMark 437)) (SSeq (SAct (ATransportX)) (SSeq (SAct (AMark 438)) (SSeq (SCall 18 (* Conn.handleRelease *) SSkip SSkip) (SChoice (SSeq (SAct (AMark 439)) (SReturn 0)) SSkip)))))) (SChoice (SSeq (SChoice (SSeq (SAct (AMark 444)) (SSeq (SAct (ATransportX)) (SSeq (SAct (AMark 445)) SContinue))) SSkip) (SSeq (SAct (AMark 448)) (SSeq (SCall 14 (* Conn.handleDisembargo *) SSkip SSkip) (SSeq (SAct (AMark 449)) (SSeq (SAct (ATransportX)) (SChoice (SSeq (SAct (AMark 451)) (SReturn 0)) SSkip)))))) (SSeq (SAct (AMark 454)) (SSeq (SCall 24 (* Conn.handleUnknownMessage *) SSkip SSkip) (SSeq (SAct (AMark 455)) (SSeq (SAct (ATransportX)) (SChoice (SSeq (SAct (AMark 457)) (SReturn 0)) SSkip))))))))))))))))) (SReturn 0)).
-
-(* Conn.recvCap  rpc/rpc.go:1087 *)
-Definition generated_prog_body_34 : stmt :=
-  (SSeq (SChoice (SSeq (SAct (AMark 1090)) (SReturn 0)) (SChoice (SSeq (SAct (AMark 1093)) (SReturn 0)) (SChoice (SSeq (SAct (AMark 1106)) (SReturn 0)) (SChoice (SSeq (SAct (AMark 1109)) (SSeq (SChoice (SSeq (SAct (AMark 1111)) (SReturn 0)) SSkip) (SSeq (SAct (AMark 1113)) (SReturn 0)))) (SSeq (SAct (AMark 1115)) (SReturn 0)))))) (SReturn 0)).
-
-(* Conn.recvPayload  rpc/rpc.go:1124 *)
-Definition generated_prog_body_35 : stmt :=
-  (SSeq (SChoice (SSeq (SAct (AMark 1128)) (SReturn 0)) SSkip) (SSeq (SChoice (SSeq (SAct (AMark 1132)) (SReturn 0)) SSkip) (SSeq (SChoice (SSeq (SAct (AMark 1136)) (SReturn 0)) SSkip) (SSeq (SChoice (SSeq (SAct (AMark 1143)) (SReturn 0)) SSkip) (SSeq (SLoop (SSeq (SAct (AMark 1149)) (SSeq (SCall 34 (* Conn.recvCap *) SSkip SSkip) (SSeq (SChoice (SSeq (SAct (AMark 1155)) (SReturn 0)) SSkip) (SChoice (SAct (AMark 1158)) SSkip))))) (SSeq (SAct (AMark 1162)) (SSeq (SReturn 0) (SReturn 0)))))))).
-
-(* Conn.releaseExport  rpc/export.go:35 *)
-Definition generated_prog_body_36 : stmt :=
-  (SSeq (SAct (AMark 36)) (SSeq (SChoice (SSeq (SAct (AMark 38)) (SReturn 0)) SSkip) (SSeq (SChoice (SSeq (SAct (AMark 45)) (SReturn 0)) (SChoice (SSeq (SAct (AMark 47)) (SReturn 0)) (SSeq (SAct (AMark 50)) (SReturn 0)))) (SReturn 0)))).
-
-(* Conn.releaseExports  rpc/export.go:54 *)
-Definition generated_prog_body_37 : stmt :=
-  (SSeq (SLoop (SSeq (SAct (AMark 59)) (SSeq (SChoice SContinue SSkip) (SChoice SContinue SSkip)))) (SSeq (SAct (AMark 77)) (SSeq (SReturn 0) (SReturn 0)))).
-
-(* Conn.report  rpc/rpc.go:1399 *)
-Definition generated_prog_body_38 : stmt :=
-  (SSeq (SChoice (SSeq (SAct (AMark 1401)) (SReturn 0)) SSkip) (SReturn 0)).
-
-(* Conn.reportf  rpc/rpc.go:1407 *)
-Definition generated_prog_body_39 : stmt :=
-  (SSeq (SChoice (SSeq (SAct (AMark 1409)) (SReturn 0)) SSkip) (SSeq (SAct (AMark 1411)) (SReturn 0))).
-
-(* Conn.sendCap  rpc/export.go:83 *)
-Definition generated_prog_body_40 : stmt :=
-  (SSeq (SChoice (SSeq (SAct (AMark 86)) (SReturn 0)) SSkip) (SSeq (SChoice (SChoice (SSeq (SAct (AMark 92)) (SReturn 0)) SSkip) SSkip) (SSeq (SLoop (SSeq (SChoice SContinue SSkip) (SChoice (SSeq (SAct (AMark 106)) (SReturn 0)) SSkip))) (SSeq (SAct (AMark 120)) (SSeq (SReturn 0) (SReturn 0)))))).
-
-(* Conn.sendMessage  rpc/rpc.go:1319 *)
-Definition generated_prog_body_41 : stmt :=
-  (SSeq (SAct (AMark 1320)) (SSeq (SCall 45 (* Conn.tryLockSender *) SSkip (SSeq (SAct (AMark 1321)) (SReturn 0))) (SSeq (SAct (AMark 1323)) (SSeq (SAct (AUnlock 0)) (SSeq (SAct (AMark 1324)) (SSeq (SAct (ATransport)) (SSeq (SChoice (SSeq (SAct (AMark 1326)) (SSeq (SAct (ALock 0)) (SSeq (SAct (AMark 1327)) (SSeq (SCall 46 (* Conn.unlockSender *) SSkip SSkip) (SSeq (SAct (AMark 1328)) (SReturn 0)))))) SSkip) (SSeq (SAct (AMark 1330)) (SSeq (SCall 42 (* Conn.sendMessage.f *) SSkip SSkip) (SSeq (SChoice (SSeq (SAct (AMark 1331)) (SSeq (SAct (ATransport)) (SSeq (SAct (AMark 1332)) (SSeq (SAct (ALock 0)) (SSeq (SAct (AMark 1333)) (SSeq (SCall 46 (* Conn.unlockSender *) SSkip SSkip) (SSeq (SAct (AMark 1334)) (SReturn 0)))))))) SSkip) (SSeq (SAct (AMark 1336)) (SSeq (SAct (ATransport)) (SSeq (SAct (AMark 1337)) (SSeq (SAct (ATransport)) (SSeq (SAct (AMark 1338)) (SSeq (SAct (ALock 0)) (SSeq (SAct (AMark 1339)) (SSeq (SCall 46 (* Conn.unlockSender *) SSkip SSkip) (SSeq (SChoice (SSeq (SAct (AMark 1341)) (SReturn 0)) SSkip) (SSeq (SAct (AMark 1343)) (SSeq (SReturn 0) (SReturn 0)))))))))))))))))))))).
-
-(* Conn.shutdown  rpc/rpc.go:271 *)
-Definition generated_prog_body_43 : stmt :=
-  (SSeq (SLoop SSkip) (SSeq (SAct (AMark 283)) (SSeq (SAct (AUnlock 0)) (SSeq (SAct (AMark 284)) (SSeq (SAct (AWait)) (SSeq (SAct (AMark 285)) (SSeq (SAct (ALock 0)) (SSeq (SAct (AMark 296)) (SSeq (SAct (AUnlock 0)) (SSeq (SAct (AMark 298)) (SSeq (SAct (ACallout)) (SSeq (SLoop (SChoice (SSeq (SAct (AMark 302)) (SAct (ACallout))) SSkip)) (SSeq (SLoop (SChoice (SSeq (SAct (AMark 307)) (SCall 85 (* embargo.lift *) SSkip SSkip)) SSkip)) (SSeq (SLoop (SChoice (SSeq (SAct (AMark 312)) (SSeq (SCall 128 (* releaseList.release *) SSkip SSkip) (SChoice (SSeq (SAct (AMark 316)) (SAct (ATransportX))) SSkip))) SSkip)) (SSeq (SChoice (SSeq (SAct (AMark 324)) (SSeq (SAct (ATransportX)) (SSeq (SChoice (SSeq (SAct (AMark 346)) (SSeq (SAct (ATransportX)) (SSeq (SChoice (SSeq (SAct (AMark 347)) (SReturn 0)) SSkip) (SSeq (SAct (AMark 349)) (SSeq (SReturn 0) (SReturn 0)))))) SSkip) (SSeq (SChoice (SSeq (SAct (AMark 331)) (SSeq (SAct (ATransportX)) (SSeq (SAct (AMark 346)) (SSeq (SAct (ATransportX)) (SSeq (SChoice (SSeq (SAct (AMark 347)) (SReturn 0)) SSkip) (SSeq (SAct (AMark 349)) (SSeq (SReturn 0) (SReturn 0)))))))) SSkip) (SSeq (SChoice (SSeq (SAct (AMark 337)) (SSeq (SAct (ATransportX)) (SSeq (SAct (AMark 346)) (SSeq (SAct (ATransportX)) (SSeq (SChoice (SSeq (SAct (AMark 347)) (SReturn 0)) SSkip) (SSeq (SAct (AMark 349)) (SSeq (SReturn 0) (SReturn 0)))))))) SSkip) (SSeq (SAct (AMark 341)) (SSeq (SAct (ATransportX)) (SSeq (SAct (AMark 342)) (SAct (ATransportX)))))))))) SSkip) (SSeq (SAct (AMark 346)) (SSeq (SAct (ATransportX)) (SSeq (SChoice (SSeq (SAct (AMark 347)) (SReturn 0)) SSkip) (SSeq (SAct (AMark 349)) (SSeq (SReturn 0) (SReturn 0))))))))))))))))))))).
-
-(* Conn.startTask  rpc/rpc.go:1304 *)
-Definition generated_prog_body_44 : stmt :=
-  (SSeq (SChoice (SSeq (SAct (AMark 1307)) (SReturn 1)) (SSeq (SAct (AMark 1309)) (SSeq (SAct (ATasksAdd)) (SSeq (SAct (AMark 1310)) (SReturn 0))))) (SReturn 0)).
-
-(* Conn.tryLockSender  rpc/rpc.go:1349 *)
-Definition generated_prog_body_45 : stmt :=
-  (SSeq (SLoop (SSeq (SChoice (SSeq (SAct (AMark 1353)) (SReturn 1)) SSkip) (SSeq (SChoice SBreak SSkip) (SSeq (SAct (AMark 1360)) (SSeq (SAct (AUnlock 0)) (SSeq (SAct (AMark 1361)) (SSeq (SAct (AWait)) (SSeq (SChoice SSkip (SChoice (SSeq (SAct (AMark 1364)) (SSeq (SAct (ALock 0)) (SSeq (SAct (AMark 1365)) (SReturn 1)))) (SSeq (SAct (AMark 1367)) (SSeq (SAct (ALock 0)) (SSeq (SAct (AMark 1368)) (SReturn 1)))))) (SSeq (SAct (AMark 1370)) (SAct (ALock 0))))))))))) (SSeq (SAct (AMark 1372)) (SSeq (SAct (AAcqSender)) (SSeq (SAct (AMark 1373)) (SSeq (SReturn 0) (SReturn 0)))))).
-
-(* Conn.unlockSender  rpc/rpc.go:1392 *)
-Definition generated_prog_body_46 : stmt :=
-  (SSeq (SAct (AMark 1393)) (SSeq (SAct (ARelSender)) (SReturn 0))).
-
-(* NewConn  rpc/rpc.go:139 *)
-Definition generated_prog_body_47 : stmt :=
-  (SSeq (SAct (AMark 157)) (SSeq (SAct (ATasksAdd)) (SSeq (SAct (AMark 158)) (SSeq (SSpawn 48 (* NewConn$1 *)) (SSeq (SAct (AMark 176)) (SSeq (SReturn 0) (SReturn 0))))))).
-
-(* NewConn$1  rpc/rpc.go:158 *)
-Definition generated_prog_body_48 : stmt :=
-  (SSeq (SAct (AMark 159)) (SSeq (SCall 33 (* Conn.receive *) SSkip SSkip) (SSeq (SAct (AMark 160)) (SSeq (SAct (ATasksDone)) (SSeq (SAct (AMark 162)) (SSeq (SAct (ALock 0)) (SSeq (SChoice (SSeq (SAct (AMark 165)) (SAct (AUnlock 0))) (SSeq (SChoice (SAct (AMark 168)) SSkip) (SSeq (SAct (AMark 171)) (SSeq (SCall 43 (* Conn.shutdown *) SSkip SSkip) (SChoice (SAct (AMark 172)) SSkip))))) (SReturn 0)))))))).
-
-(* NewPackedStreamTransport  rpc/transport.go:93 *)
-Definition generated_prog_body_49 : stmt :=
-  (SSeq (SAct (AMark 94)) (SSeq (SReturn 0) (SReturn 0))).
-
-(* NewStreamTransport  rpc/transport.go:85 *)
-Definition generated_prog_body_50 : stmt :=
-  (SSeq (SAct (AMark 86)) (SSeq (SReturn 0) (SReturn 0))).
-
-(* NewTransport  rpc/transport.go:75 *)
-Definition generated_prog_body_51 : stmt :=
-  (SSeq (SAct (AMark 75)) (SSeq (SReturn 0) (SReturn 0))).
-
-(* annotate  rpc/rpc.go:1439 *)
-Definition generated_prog_body_52 : stmt :=
-  (SSeq (SAct (AMark 1440)) (SSeq (SReturn 0) (SReturn 0))).
-
-(* annotater.errorf  rpc/rpc.go:1443 *)
-Definition generated_prog_body_53 : stmt :=
-  (SSeq (SAct (AMark 1444)) (SSeq (SReturn 0) (SReturn 0))).
-
-(* answer.AllocResults  rpc/answer.go:120 *)
-Definition generated_prog_body_54 : stmt :=
-  (SSeq (SChoice (SSeq (SAct (AMark 124)) (SReturn 0)) SSkip) (SSeq (SChoice (SSeq (SAct (AMark 128)) (SReturn 0)) SSkip) (SSeq (SChoice (SSeq (SAct (AMark 131)) (SReturn 0)) SSkip) (SSeq (SAct (AMark 133)) (SSeq (SReturn 0) (SReturn 0)))))).
-
-(* answer.Return  rpc/answer.go:160 *)
-Definition generated_prog_body_55 : stmt :=
-  (SSeq (SChoice (SSeq (SAct (AMark 163)) (SCall 90 (* extractCapTable *) SSkip SSkip)) SSkip) (SSeq (SAct (AMark 165)) (SSeq (SAct (ALock 0)) (SSeq (SAct (AMark 166)) (SSeq (SCall 26 (* Conn.lockSender *) SSkip SSkip) (SSeq (SChoice (SSeq (SAct (AMark 168)) (SSeq (SCall 57 (* answer.sendException *) SSkip SSkip) (SSeq (SAct (AMark 169)) (SSeq (SCall 46 (* Conn.unlockSender *) SSkip SSkip) (SSeq (SAct (AMark 170)) (SSeq (SAct (AUnlock 0)) (SSeq (SAct (AMark 171)) (SSeq (SCall 128 (* releaseList.release *) SSkip SSkip) (SSeq (SAct (AMark 172)) (SSeq (SAct (AWait)) (SSeq (SAct (AMark 173)) (SSeq (SAct (ATasksDone)) (SSeq (SAct (AMark 174)) (SReturn 0)))))))))))))) SSkip) (SSeq (SAct (AMark 176)) (SSeq (SCall 58 (* answer.sendReturn *) SSkip SSkip) (SSeq (SAct (AMark 177)) (SSeq (SCall 46 (* Conn.unlockSender *) SSkip SSkip) (SSeq (SChoice (SChoice SSkip (SSeq (SAct (AMark 182)) (SSeq (SAct (ATasksDone)) (SSeq (SAct (AMark 183)) (SSeq (SCall 43 (* Conn.shutdown *) SSkip SSkip) (SSeq (SChoice (SAct (AMark 184)) SSkip) (SSeq (SAct (AMark 187)) (SSeq (SCall 128 (* releaseList.release *) SSkip SSkip) (SSeq (SAct (AMark 188)) (SSeq (SAct (AWait)) (SSeq (SAct (AMark 189)) (SReturn 0)))))))))))) SSkip) (SSeq (SAct (AMark 192)) (SSeq (SAct (AUnlock 0)) (SSeq (SAct (AMark 193)) (SSeq (SCall 128 (* releaseList.release *) SSkip SSkip) (SSeq (SAct (AMark 194)) (SSeq (SAct (AWait)) (SSeq (SAct (AMark 195)) (SSeq (SAct (ATasksDone)) (SReturn 0)))))))))))))))))))).
-
-(* answer.destroy  rpc/answer.go:296 *)
-Definition generated_prog_body_56 : stmt :=
-  (SSeq (SChoice (SSeq (SAct (AMark 300)) (SReturn 0)) SSkip) (SSeq (SAct (AMark 303)) (SSeq (SReturn 0) (SReturn 0)))).
-
-(* answer.sendException  rpc/answer.go:249 *)
-Definition generated_prog_body_57 : stmt :=
-  (SSeq (SChoice SSkip (SSeq (SAct (AMark 259)) (SSeq (SAct (AUnlock 0)) (SSeq (SChoice (SAct (AMark 261)) (SChoice (SAct (AMark 265)) (SSeq (SAct (AMark 266)) (SSeq (SAct (ATransport)) (SChoice (SAct (AMark 267)) SSkip))))) (SSeq (SChoice (SSeq (SAct (AMark 271)) (SSeq (SAct (ATransport)) (SSeq (SAct (AMark 272)) (SSeq (SAct (ALock 0)) (SSeq (SAct (AMark 274)) (SReturn 0)))))) SSkip) (SSeq (SAct (AMark 276)) (SAct (ALock 0)))))))) (SSeq (SChoice (SSeq (SAct (AMark 280)) (SReturn 0)) SSkip) (SSeq (SAct (AMark 285)) (SSeq (SAct (AUnlock 0)) (SSeq (SAct (AMark 286)) (SSeq (SAct (ATransport)) (SSeq (SAct (AMark 287)) (SSeq (SAct (ALock 0)) (SSeq (SAct (AMark 288)) (SSeq (SReturn 0) (SReturn 0))))))))))).
-
-(* answer.sendReturn  rpc/answer.go:207 *)
-Definition generated_prog_body_58 : stmt :=
-  (SSeq (SAct (AMark 211)) (SSeq (SChoice SSkip (SSeq (SAct (AMark 221)) (SSeq (SAct (AUnlock 0)) (SSeq (SAct (AMark 222)) (SSeq (SAct (ATransport)) (SSeq (SChoice (SAct (AMark 223)) SSkip) (SSeq (SChoice (SSeq (SAct (AMark 226)) (SSeq (SAct (ATransport)) (SSeq (SAct (AMark 227)) (SSeq (SAct (ALock 0)) (SSeq (SAct (AMark 228)) (SReturn 0)))))) SSkip) (SSeq (SAct (AMark 230)) (SAct (ALock 0)))))))))) (SSeq (SChoice (SSeq (SAct (AMark 234)) (SReturn 0)) SSkip) (SSeq (SAct (AMark 237)) (SSeq (SAct (AUnlock 0)) (SSeq (SAct (AMark 238)) (SSeq (SAct (ATransport)) (SSeq (SAct (AMark 239)) (SSeq (SAct (ALock 0)) (SSeq (SAct (AMark 240)) (SSeq (SReturn 0) (SReturn 0)))))))))))).
-
-(* answer.setBootstrap  rpc/answer.go:138 *)
-Definition generated_prog_body_59 : stmt :=
-  (SSeq (SChoice (SSeq (SAct (AMark 140)) SPanic) SSkip) (SSeq (SChoice (SSeq (SAct (AMark 148)) (SReturn 0)) SSkip) (SSeq (SChoice (SSeq (SAct (AMark 152)) (SReturn 0)) SSkip) (SSeq (SAct (AMark 154)) (SSeq (SReturn 0) (SReturn 0)))))).
-
-(* answer.setPipelineCaller  rpc/answer.go:111 *)
-Definition generated_prog_body_60 : stmt :=
-  (SSeq (SAct (AMark 112)) (SSeq (SAct (ALock 0)) (SSeq (SAct (AMark 116)) (SSeq (SAct (AUnlock 0)) (SReturn 0))))).
-
-(* basicEncoding.NewDecoder  rpc/transport.go:245 *)
-Definition generated_prog_body_61 : stmt :=
-  (SSeq (SAct (AMark 245)) (SSeq (SReturn 0) (SReturn 0))).
-
-(* basicEncoding.NewEncoder  rpc/transport.go:244 *)
-Definition generated_prog_body_62 : stmt :=
-  (SSeq (SAct (AMark 244)) (SSeq (SReturn 0) (SReturn 0))).
-
-(* bootstrapClient.Brand  rpc/rpc.go:232 *)
-Definition generated_prog_body_63 : stmt :=
-  (SSeq (SAct (AMark 233)) (SSeq (SAct (ACallout)) (SSeq (SAct (AMark 233)) (SSeq (SReturn 0) (SReturn 0))))).
-
-(* bootstrapClient.Recv  rpc/rpc.go:228 *)
-Definition generated_prog_body_64 : stmt :=
-  (SSeq (SAct (AMark 229)) (SSeq (SAct (ACallout)) (SSeq (SAct (AMark 229)) (SSeq (SReturn 0) (SReturn 0))))).
-
-(* bootstrapClient.Send  rpc/rpc.go:224 *)
-Definition generated_prog_body_65 : stmt :=
-  (SSeq (SAct (AMark 225)) (SSeq (SAct (ACallout)) (SSeq (SAct (AMark 225)) (SSeq (SReturn 0) (SReturn 0))))).
-
-(* bootstrapClient.Shutdown  rpc/rpc.go:236 *)
-Definition generated_prog_body_66 : stmt :=
-  (SSeq (SAct (AMark 238)) (SSeq (SAct (ACallout)) (SReturn 0))).
-
-(* clearCapTable  rpc/rpc.go:1414 *)
-Definition generated_prog_body_67 : stmt :=
-  (SSeq (SAct (AMark 1415)) (SSeq (SCall 128 (* releaseList.release *) SSkip SSkip) (SReturn 0))).
-
-(* ctxReader.Read  rpc/transport.go:273 *)
-Definition generated_prog_body_68 : stmt :=
-  (SSeq (SChoice (SSeq (SChoice (SSeq (SAct (AMark 281)) (SReturn 0)) SSkip) (SSeq (SAct (AMark 283)) (SReturn 0))) SSkip) (SSeq (SChoice (SSeq (SAct (AMark 287)) (SSeq (SAct (AWait)) (SChoice (SSeq (SChoice (SSeq (SAct (AMark 293)) (SReturn 0)) SSkip) (SSeq (SAct (AMark 296)) (SReturn 0))) (SSeq (SAct (AMark 298)) (SReturn 0))))) SSkip) (SSeq (SChoice (SSeq (SAct (AMark 304)) (SReturn 0)) SSkip) (SSeq (SChoice (SSeq (SAct (AMark 312)) (SSeq (SCall 70 (* ctxReader.leakyRead *) SSkip SSkip) (SSeq (SAct (AMark 312)) (SReturn 0)))) SSkip) (SSeq (SChoice (SSeq (SAct (AMark 315)) (SSeq (SCall 70 (* ctxReader.leakyRead *) SSkip SSkip) (SSeq (SAct (AMark 315)) (SReturn 0)))) SSkip) (SSeq (SAct (AMark 325)) (SSeq (SSpawn 69 (* ctxReader.Read$1 *)) (SSeq (SAct (AMark 335)) (SSeq (SAct (AWait)) (SSeq (SAct (AMark 336)) (SSeq (SReturn 0) (SReturn 0)))))))))))).
-
-(* ctxReader.Read$1  rpc/transport.go:325 *)
-Definition generated_prog_body_69 : stmt :=
-  (SSeq (SAct (AMark 327)) (SSeq (SAct (AWait)) (SReturn 0))).
-
-(* ctxReader.leakyRead  rpc/transport.go:342 *)
-Definition generated_prog_body_70 : stmt :=
-  (SSeq (SAct (AMark 348)) (SSeq (SSpawn 71 (* ctxReader.leakyRead$1 *)) (SSeq (SAct (AMark 352)) (SSeq (SAct (AWait)) (SSeq (SChoice (SSeq (SAct (AMark 356)) (SReturn 0)) (SSeq (SAct (AMark 358)) (SReturn 0))) (SReturn 0)))))).
-
-(* ctxReader.leakyRead$1  rpc/transport.go:348 *)
-Definition generated_prog_body_71 : stmt :=
-  (SSeq (SAct (AMark 350)) (SSeq (SAct (AWait)) (SReturn 0))).
-
-(* ctxReader.setReadContext  rpc/transport.go:269 *)
-Definition generated_prog_body_72 : stmt :=
-  (SReturn 0).
-
-(* ctxReader.wait  rpc/transport.go:363 *)
-Definition generated_prog_body_73 : stmt :=
-  (SSeq (SChoice (SSeq (SAct (AMark 365)) (SReturn 0)) SSkip) (SSeq (SAct (AMark 367)) (SSeq (SAct (AWait)) (SReturn 0)))).
-
-(* ctxWriteCloser.Write  rpc/transport.go:384 *)
-Definition generated_prog_body_74 : stmt :=
-  (SSeq (SAct (AMark 385)) (SSeq (SCall 76 (* ctxWriteCloser.write *) SSkip SSkip) (SSeq (SAct (AMark 391)) (SSeq (SReturn 0) (SReturn 0))))).
-
-(* ctxWriteCloser.setWriteContext  rpc/transport.go:394 *)
-Definition generated_prog_body_75 : stmt :=
-  (SReturn 0).
-
-(* ctxWriteCloser.write  rpc/transport.go:396 *)
-Definition generated_prog_body_76 : stmt :=
-  (SSeq (SChoice (SSeq (SAct (AMark 400)) (SReturn 0)) SSkip) (SSeq (SChoice (SSeq (SAct (AMark 408)) (SReturn 0)) SSkip) (SSeq (SChoice (SSeq (SAct (AMark 411)) (SReturn 0)) SSkip) (SSeq (SAct (AMark 421)) (SSeq (SSpawn 77 (* ctxWriteCloser.write$1 *)) (SSeq (SAct (AMark 431)) (SSeq (SAct (AWait)) (SSeq (SChoice SSkip (SAct (AMark 432))) (SSeq (SChoice (SSeq (SAct (AMark 433)) (SReturn 0)) SSkip) (SSeq (SAct (AMark 439)) (SSeq (SReturn 0) (SReturn 0)))))))))))).
-
-(* ctxWriteCloser.write$1  rpc/transport.go:421 *)
-Definition generated_prog_body_77 : stmt :=
-  (SSeq (SAct (AMark 423)) (SSeq (SAct (AWait)) (SReturn 0))).
-
-(* disconnected  rpc/rpc.go:1423 *)
-Definition generated_prog_body_78 : stmt :=
-  (SSeq (SAct (AMark 1424)) (SSeq (SReturn 0) (SReturn 0))).
-
-(* embargo.Brand  rpc/export.go:244 *)
-Definition generated_prog_body_79 : stmt :=
-  (SSeq (SAct (AMark 245)) (SSeq (SReturn 0) (SReturn 0))).
-
-(* embargo.Recv  rpc/export.go:234 *)
-Definition generated_prog_body_80 : stmt :=
-  (SSeq (SAct (AMark 235)) (SSeq (SAct (AWait)) (SSeq (SChoice (SSeq (SAct (AMark 237)) (SSeq (SAct (ACallout)) (SSeq (SAct (AMark 237)) (SReturn 0)))) (SSeq (SAct (AMark 239)) (SSeq (SAct (ACallout)) (SSeq (SAct (AMark 240)) (SReturn 0))))) (SReturn 0)))).
-
-(* embargo.Send  rpc/export.go:225 *)
-Definition generated_prog_body_81 : stmt :=
-  (SSeq (SAct (AMark 226)) (SSeq (SAct (AWait)) (SSeq (SChoice (SSeq (SAct (AMark 228)) (SSeq (SAct (ACallout)) (SSeq (SAct (AMark 228)) (SReturn 0)))) (SSeq (SAct (AMark 230)) (SReturn 0))) (SReturn 0)))).
-
-(* embargo.Send$1  rpc/export.go:230 *)
-Definition generated_prog_body_82 : stmt :=
-  (SReturn 0).
-
-(* embargo.Shutdown  rpc/export.go:248 *)
-Definition generated_prog_body_83 : stmt :=
-  (SSeq (SAct (AMark 249)) (SSeq (SCall 84 (* embargo.end *) SSkip SSkip) (SReturn 0))).
-
-(* embargo.end  rpc/export.go:219 *)
-Definition generated_prog_body_84 : stmt :=
-  (SSeq (SChoice (SSeq (SAct (AMark 221)) (SAct (ACallout))) SSkip) (SReturn 0)).
-
-(* embargo.lift  rpc/export.go:212 *)
-Definition generated_prog_body_85 : stmt :=
-  (SSeq (SAct (AMark 214)) (SSeq (SAct (ACallout)) (SSeq (SAct (AMark 215)) (SSeq (SCall 84 (* embargo.end *) SSkip SSkip) (SReturn 0))))).
-
-(* errorAnswer  rpc/answer.go:84 *)
-Definition generated_prog_body_86 : stmt :=
-  (SSeq (SAct (AMark 85)) (SSeq (SReturn 0) (SReturn 0))).
-
-(* errorValue.Load  rpc/transport.go:453 *)
-Definition generated_prog_body_87 : stmt :=
-  (SSeq (SChoice (SSeq (SAct (AMark 455)) (SReturn 0)) SSkip) (SSeq (SAct (AMark 458)) (SSeq (SReturn 0) (SReturn 0)))).
-
-(* errorValue.Set  rpc/transport.go:461 *)
-Definition generated_prog_body_88 : stmt :=
-  (SReturn 0).
-
-(* errorf  rpc/rpc.go:1427 *)
-Definition generated_prog_body_89 : stmt :=
-  (SSeq (SAct (AMark 1428)) (SSeq (SReturn 0) (SReturn 0))).
-
-(* extractCapTable  rpc/export.go:157 *)
-Definition generated_prog_body_90 : stmt :=
-  (SSeq (SChoice (SSeq (SAct (AMark 160)) (SReturn 0)) SSkip) (SSeq (SLoop (SSeq (SAct (AMark 166)) (SAct (ACallout)))) (SSeq (SAct (AMark 168)) (SSeq (SReturn 0) (SReturn 0))))).
-
-(* fail  rpc/rpc.go:1419 *)
-Definition generated_prog_body_91 : stmt :=
-  (SSeq (SAct (AMark 1420)) (SSeq (SReturn 0) (SReturn 0))).
-
-(* idgen.next  rpc/idgen.go:11 *)
-Definition generated_prog_body_92 : stmt :=
-  (SSeq (SAct (AMark 12)) (SSeq (SChoice (SSeq (SAct (AMark 14)) (SReturn 0)) SSkip) (SSeq (SChoice (SSeq (SAct (AMark 22)) SPanic) SSkip) (SSeq (SAct (AMark 25)) (SSeq (SReturn 0) (SReturn 0)))))).
-
-(* idgen.remove  rpc/idgen.go:28 *)
-Definition generated_prog_body_93 : stmt :=
-  (SSeq (SAct (AMark 29)) (SReturn 0)).
-
-(* importClient.Brand  rpc/import.go:253 *)
-Definition generated_prog_body_94 : stmt :=
-  (SSeq (SAct (AMark 254)) (SSeq (SReturn 0) (SReturn 0))).
-
-(* importClient.Recv  rpc/import.go:213 *)
-Definition generated_prog_body_95 : stmt :=
-  (SSeq (SAct (AMark 214)) (SSeq (SCall 97 (* importClient.Send *) SSkip SSkip) (SSeq (SAct (AMark 223)) (SSeq (SAct (ACallout)) (SSeq (SChoice (SSeq (SAct (AMark 226)) (SSeq (SCall 129 (* returnAnswer *) SSkip SSkip) (SSeq (SAct (AMark 227)) (SReturn 0)))) (SSeq (SAct (AMark 229)) (SSeq (SSpawn 129 (* returnAnswer *)) (SSeq (SAct (AMark 230)) (SReturn 0))))) (SReturn 0)))))).
-
-(* importClient.Recv$1  rpc/import.go:217 *)
-Definition generated_prog_body_96 : stmt :=
-  (SSeq (SAct (AMark 219)) (SSeq (SAct (ACallout)) (SSeq (SAct (AMark 220)) (SSeq (SReturn 0) (SReturn 0))))).
-
-(* importClient.Send  rpc/import.go:85 *)
-Definition generated_prog_body_97 : stmt :=
-  (SSeq (SAct (AMark 87)) (SSeq (SAct (ALock 0)) (SSeq (SAct (AMark 88)) (SSeq (SCall 44 (* Conn.startTask *) SSkip (SSeq (SAct (AMark 89)) (SSeq (SAct (AUnlock 0)) (SSeq (SAct (AMark 90)) (SReturn 0))))) (SSeq (SChoice (SSeq (SAct (AMark 95)) (SSeq (SAct (AUnlock 0)) (SSeq (SAct (AMark 92)) (SSeq (SAct (ATasksDone)) (SSeq (SAct (AMark 96)) (SReturn 0)))))) SSkip) (SSeq (SAct (AMark 98)) (SSeq (SCall 45 (* Conn.tryLockSender *) SSkip (SSeq (SAct (AMark 99)) (SSeq (SAct (AUnlock 0)) (SSeq (SAct (AMark 92)) (SSeq (SAct (ATasksDone)) (SSeq (SAct (AMark 100)) (SReturn 0))))))) (SSeq (SAct (AMark 103)) (SSeq (SAct (AUnlock 0)) (SSeq (SAct (AMark 106)) (SSeq (SAct (ATransport)) (SSeq (SChoice (SSeq (SAct (AMark 108)) (SSeq (SAct (ALock 0)) (SSeq (SAct (AMark 111)) (SSeq (SCall 46 (* Conn.unlockSender *) SSkip SSkip) (SSeq (SAct (AMark 112)) (SSeq (SAct (AUnlock 0)) (SSeq (SAct (AMark 92)) (SSeq (SAct (ATasksDone)) (SSeq (SAct (AMark 113)) (SReturn 0)))))))))) SSkip) (SSeq (SAct (AMark 115)) (SSeq (SAct (ALock 0)) (SSeq (SAct (AMark 116)) (SSeq (SCall 46 (* Conn.unlockSender *) SSkip SSkip) (SSeq (SAct (AMark 117)) (SSeq (SAct (AUnlock 0)) (SSeq (SAct (AMark 118)) (SSeq (SCall 27 (* Conn.newImportCallMessage *) SSkip SSkip) (SSeq (SChoice (SSeq (SAct (AMark 120)) (SSeq (SAct (ALock 0)) (SSeq (SAct (AMark 123)) (SSeq (SCall 26 (* Conn.lockSender *) SSkip SSkip) (SSeq (SAct (AMark 124)) (SSeq (SAct (AUnlock 0)) (SSeq (SAct (AMark 125)) (SSeq (SAct (ATransport)) (SSeq (SAct (AMark 126)) (SSeq (SAct (ALock 0)) (SSeq (SAct (AMark 127)) (SSeq (SCall 46 (* Conn.unlockSender *) SSkip SSkip) (SSeq (SAct (AMark 128)) (SSeq (SAct (AUnlock 0)) (SSeq (SAct (AMark 92)) (SSeq (SAct (ATasksDone)) (SSeq (SAct (AMark 129)) (SReturn 0)))))))))))))))))) SSkip) (SSeq (SAct (AMark 133)) (SSeq (SAct (ALock 0)) (SSeq (SAct (AMark 134)) (SSeq (SCall 26 (* Conn.lockSender *) SSkip SSkip) (SSeq (SAct (AMark 135)) (SSeq (SAct (AUnlock 0)) (SSeq (SAct (AMark 136)) (SSeq (SAct (ATransport)) (SSeq (SAct (AMark 137)) (SSeq (SAct (ATransport)) (SSeq (SAct (AMark 139)) (SSeq (SAct (ALock 0)) (SSeq (SAct (AMark 140)) (SSeq (SCall 46 (* Conn.unlockSender *) SSkip SSkip) (SSeq (SChoice (SSeq (SAct (AMark 144)) (SSeq (SAct (AUnlock 0)) (SSeq (SAct (AMark 92)) (SSeq (SAct (ATasksDone)) (SSeq (SAct (AMark 145)) (SReturn 0)))))) SSkip) (SSeq (SAct (AMark 147)) (SSeq (SAct (ATasksAdd)) (SSeq (SAct (AMark 148)) (SSeq (SSpawn 104 (* importClient.Send$7 *)) (SSeq (SAct (AMark 152)) (SSeq (SAct (AUnlock 0)) (SSeq (SAct (AMark 92)) (SSeq (SAct (ATasksDone)) (SSeq (SAct (AMark 155)) (SSeq (SReturn 0) (SSeq (SAct (AMark 92)) (SSeq (SAct (ATasksDone)) (SReturn 0))))))))))))))))))))))))))))))))))))))))))))))))).
-
-(* importClient.Send$1  rpc/import.go:90 *)
-Definition generated_prog_body_98 : stmt :=
-  (SReturn 0).
-
-(* importClient.Send$2  rpc/import.go:96 *)
-Definition generated_prog_body_99 : stmt :=
-  (SReturn 0).
-
-(* importClient.Send$3  rpc/import.go:100 *)
-Definition generated_prog_body_100 : stmt :=
-  (SReturn 0).
-
-(* importClient.Send$4  rpc/import.go:113 *)
-Definition generated_prog_body_101 : stmt :=
-  (SReturn 0).
-
-(* importClient.Send$5  rpc/import.go:129 *)
-Definition generated_prog_body_102 : stmt :=
-  (SReturn 0).
-
-(* importClient.Send$6  rpc/import.go:145 *)
-Definition generated_prog_body_103 : stmt :=
-  (SReturn 0).
-
-(* importClient.Send$7  rpc/import.go:148 *)
-Definition generated_prog_body_104 : stmt :=
-  (SSeq (SAct (AMark 150)) (SSeq (SCall 124 (* question.handleCancel *) SSkip SSkip) (SSeq (SAct (AMark 149)) (SSeq (SAct (ATasksDone)) (SReturn 0))))).
-
-(* importClient.Send$8  rpc/import.go:155 *)
-Definition generated_prog_body_105 : stmt :=
-  (SSeq (SAct (AMark 156)) (SSeq (SAct (AWait)) (SSeq (SAct (AMark 157)) (SSeq (SAct (ACallout)) (SSeq (SAct (AMark 158)) (SSeq (SAct (ACallout)) (SReturn 0))))))).
-
-(* importClient.Shutdown  rpc/import.go:257 *)
-Definition generated_prog_body_106 : stmt :=
-  (SSeq (SAct (AMark 258)) (SSeq (SAct (ALock 0)) (SSeq (SAct (AMark 259)) (SSeq (SCall 44 (* Conn.startTask *) SSkip (SSeq (SAct (AMark 260)) (SSeq (SAct (AUnlock 0)) (SSeq (SAct (AMark 261)) (SReturn 0))))) (SSeq (SChoice (SSeq (SAct (AMark 268)) (SSeq (SAct (AUnlock 0)) (SSeq (SAct (AMark 263)) (SSeq (SAct (ATasksDone)) (SSeq (SAct (AMark 269)) (SReturn 0)))))) SSkip) (SSeq (SAct (AMark 272)) (SSeq (SCall 41 (* Conn.sendMessage *) SSkip SSkip) (SSeq (SAct (AMark 281)) (SSeq (SAct (AUnlock 0)) (SSeq (SAct (AMark 263)) (SSeq (SAct (ATasksDone)) (SReturn 0)))))))))))).
-
-(* importClient.Shutdown$1  rpc/import.go:272 *)
-Definition generated_prog_body_107 : stmt :=
-  (SSeq (SChoice (SSeq (SAct (AMark 275)) (SReturn 0)) SSkip) (SSeq (SAct (AMark 279)) (SSeq (SReturn 0) (SReturn 0)))).
-
-(* isTimeout  rpc/transport.go:442 *)
-Definition generated_prog_body_108 : stmt :=
-  (SSeq (SAct (AMark 446)) (SSeq (SReturn 0) (SReturn 0))).
-
-(* newStreamCodec  rpc/transport.go:195 *)
-Definition generated_prog_body_109 : stmt :=
-  (SSeq (SAct (AMark 207)) (SSeq (SReturn 0) (SReturn 0))).
-
-(* packedEncoding.NewDecoder  rpc/transport.go:250 *)
-Definition generated_prog_body_110 : stmt :=
-  (SSeq (SAct (AMark 250)) (SSeq (SReturn 0) (SReturn 0))).
-
-(* packedEncoding.NewEncoder  rpc/transport.go:249 *)
-Definition generated_prog_body_111 : stmt :=
-  (SSeq (SAct (AMark 249)) (SSeq (SReturn 0) (SReturn 0))).
-
-(* parseMessageTarget  rpc/rpc.go:777 *)
-Definition generated_prog_body_112 : stmt :=
-  (SSeq (SChoice SSkip (SChoice (SSeq (SChoice (SSeq (SAct (AMark 785)) (SReturn 0)) SSkip) (SSeq (SChoice (SSeq (SAct (AMark 790)) (SReturn 0)) SSkip) (SSeq (SAct (AMark 792)) (SChoice (SSeq (SAct (AMark 794)) (SReturn 0)) SSkip)))) (SSeq (SAct (AMark 797)) (SReturn 0)))) (SSeq (SAct (AMark 799)) (SSeq (SReturn 0) (SReturn 0)))).
-
-(* parseTransform  rpc/rpc.go:802 *)
-Definition generated_prog_body_113 : stmt :=
-  (SSeq (SLoop (SChoice SSkip (SChoice SSkip (SSeq (SAct (AMark 812)) (SReturn 0))))) (SSeq (SAct (AMark 815)) (SSeq (SReturn 0) (SReturn 0)))).
-
-(* question.PipelineRecv  rpc/question.go:256 *)
-Definition generated_prog_body_114 : stmt :=
-  (SSeq (SAct (AMark 257)) (SSeq (SCall 116 (* question.PipelineSend *) SSkip SSkip) (SSeq (SAct (AMark 266)) (SSeq (SAct (ACallout)) (SSeq (SChoice (SSeq (SAct (AMark 269)) (SSeq (SCall 129 (* returnAnswer *) SSkip SSkip) (SSeq (SAct (AMark 270)) (SReturn 0)))) (SSeq (SAct (AMark 272)) (SSeq (SSpawn 129 (* returnAnswer *)) (SSeq (SAct (AMark 273)) (SReturn 0))))) (SReturn 0)))))).
-
-(* question.PipelineRecv$1  rpc/question.go:260 *)
-Definition generated_prog_body_115 : stmt :=
-  (SSeq (SAct (AMark 262)) (SSeq (SAct (ACallout)) (SSeq (SAct (AMark 263)) (SSeq (SReturn 0) (SReturn 0))))).
-
-(* question.PipelineSend  rpc/question.go:113 *)
-Definition generated_prog_body_116 : stmt :=
-  (SSeq (SAct (AMark 115)) (SSeq (SAct (ALock 0)) (SSeq (SAct (AMark 116)) (SSeq (SCall 44 (* Conn.startTask *) SSkip (SSeq (SAct (AMark 117)) (SSeq (SAct (AUnlock 0)) (SSeq (SAct (AMark 118)) (SReturn 0))))) (SSeq (SAct (AMark 128)) (SSeq (SCall 45 (* Conn.tryLockSender *) SSkip (SSeq (SAct (AMark 129)) (SSeq (SAct (AUnlock 0)) (SSeq (SAct (AMark 120)) (SSeq (SAct (ATasksDone)) (SSeq (SAct (AMark 130)) (SReturn 0))))))) (SSeq (SAct (AMark 133)) (SSeq (SAct (AUnlock 0)) (SSeq (SAct (AMark 136)) (SSeq (SAct (ATransport)) (SSeq (SChoice (SSeq (SAct (AMark 138)) (SSeq (SAct (ALock 0)) (SSeq (SAct (AMark 141)) (SSeq (SCall 46 (* Conn.unlockSender *) SSkip SSkip) (SSeq (SAct (AMark 142)) (SSeq (SAct (AUnlock 0)) (SSeq (SAct (AMark 120)) (SSeq (SAct (ATasksDone)) (SSeq (SAct (AMark 143)) (SReturn 0)))))))))) SSkip) (SSeq (SAct (AMark 145)) (SSeq (SAct (ALock 0)) (SSeq (SAct (AMark 146)) (SSeq (SCall 46 (* Conn.unlockSender *) SSkip SSkip) (SSeq (SAct (AMark 147)) (SSeq (SAct (AUnlock 0)) (SSeq (SAct (AMark 148)) (SSeq (SCall 28 (* Conn.newPipelineCallMessage *) SSkip SSkip) (SSeq (SChoice (SSeq (SAct (AMark 150)) (SSeq (SAct (ALock 0)) (SSeq (SAct (AMark 153)) (SSeq (SCall 26 (* Conn.lockSender *) SSkip SSkip) (SSeq (SAct (AMark 154)) (SSeq (SAct (AUnlock 0)) (SSeq (SAct (AMark 155)) (SSeq (SAct (ATransport)) (SSeq (SAct (AMark 156)) (SSeq (SAct (ALock 0)) (SSeq (SAct (AMark 157)) (SSeq (SCall 46 (* Conn.unlockSender *) SSkip SSkip) (SSeq (SAct (AMark 158)) (SSeq (SAct (AUnlock 0)) (SSeq (SAct (AMark 120)) (SSeq (SAct (ATasksDone)) (SSeq (SAct (AMark 159)) (SReturn 0)))))))))))))))))) SSkip) (SSeq (SAct (AMark 163)) (SSeq (SAct (ALock 0)) (SSeq (SAct (AMark 164)) (SSeq (SCall 26 (* Conn.lockSender *) SSkip SSkip) (SSeq (SAct (AMark 165)) (SSeq (SAct (AUnlock 0)) (SSeq (SAct (AMark 166)) (SSeq (SAct (ATransport)) (SSeq (SAct (AMark 167)) (SSeq (SAct (ATransport)) (SSeq (SAct (AMark 169)) (SSeq (SAct (ALock 0)) (SSeq (SAct (AMark 170)) (SSeq (SCall 46 (* Conn.unlockSender *) SSkip SSkip) (SSeq (SChoice (SSeq (SAct (AMark 174)) (SSeq (SAct (AUnlock 0)) (SSeq (SAct (AMark 120)) (SSeq (SAct (ATasksDone)) (SSeq (SAct (AMark 175)) (SReturn 0)))))) SSkip) (SSeq (SAct (AMark 177)) (SSeq (SAct (ATasksAdd)) (SSeq (SAct (AMark 178)) (SSeq (SSpawn 122 (* question.PipelineSend$6 *)) (SSeq (SAct (AMark 182)) (SSeq (SAct (AUnlock 0)) (SSeq (SAct (AMark 120)) (SSeq (SAct (ATasksDone)) (SSeq (SAct (AMark 185)) (SSeq (SReturn 0) (SSeq (SAct (AMark 120)) (SSeq (SAct (ATasksDone)) (SReturn 0)))))))))))))))))))))))))))))))))))))))))))))))).
-
-(* question.PipelineSend$1  rpc/question.go:118 *)
-Definition generated_prog_body_117 : stmt :=
-  (SReturn 0).
-
-(* question.PipelineSend$2  rpc/question.go:130 *)
-Definition generated_prog_body_118 : stmt :=
-  (SReturn 0).
-
-(* question.PipelineSend$3  rpc/question.go:143 *)
-Definition generated_prog_body_119 : stmt :=
-  (SReturn 0).
-
-(* question.PipelineSend$4  rpc/question.go:159 *)
-Definition generated_prog_body_120 : stmt :=
-  (SReturn 0).
-
-(* question.PipelineSend$5  rpc/question.go:175 *)
-Definition generated_prog_body_121 : stmt :=
-  (SReturn 0).
-
-(* question.PipelineSend$6  rpc/question.go:178 *)
-Definition generated_prog_body_122 : stmt :=
-  (SSeq (SAct (AMark 180)) (SSeq (SCall 124 (* question.handleCancel *) SSkip SSkip) (SSeq (SAct (AMark 179)) (SSeq (SAct (ATasksDone)) (SReturn 0))))).
-
-(* question.PipelineSend$7  rpc/question.go:185 *)
-Definition generated_prog_body_123 : stmt :=
-  (SSeq (SAct (AMark 186)) (SSeq (SAct (AWait)) (SSeq (SAct (AMark 187)) (SSeq (SAct (ACallout)) (SSeq (SAct (AMark 188)) (SSeq (SAct (ACallout)) (SReturn 0))))))).
-
-(* question.handleCancel  rpc/question.go:66 *)
-Definition generated_prog_body_124 : stmt :=
-  (SSeq (SAct (AMark 68)) (SSeq (SAct (AWait)) (SSeq (SChoice SSkip (SChoice (SAct (AMark 72)) (SSeq (SAct (AMark 74)) (SReturn 0)))) (SSeq (SAct (AMark 77)) (SSeq (SAct (ALock 0)) (SSeq (SChoice (SSeq (SAct (AMark 80)) (SSeq (SAct (AUnlock 0)) (SSeq (SAct (AMark 81)) (SReturn 0)))) SSkip) (SSeq (SAct (AMark 85)) (SSeq (SCall 41 (* Conn.sendMessage *) SSkip SSkip) (SSeq (SAct (AMark 104)) (SSeq (SAct (AUnlock 0)) (SSeq (SAct (AMark 106)) (SSeq (SAct (ACallout)) (SSeq (SChoice (SSeq (SAct (AMark 108)) (SSeq (SAct (ACallout)) (SSeq (SAct (AMark 109)) (SAct (ACallout))))) SSkip) (SReturn 0)))))))))))))).
-
-(* question.handleCancel$1  rpc/question.go:84 *)
-Definition generated_prog_body_125 : stmt :=
-  (SReturn 0).
-
-(* question.handleCancel$2  rpc/question.go:85 *)
-Definition generated_prog_body_126 : stmt :=
-  (SSeq (SChoice (SSeq (SAct (AMark 88)) (SReturn 0)) SSkip) (SSeq (SAct (AMark 92)) (SSeq (SReturn 0) (SReturn 0)))).
-
-(* question.mark  rpc/question.go:279 *)
-Definition generated_prog_body_127 : stmt :=
-  (SSeq (SLoop (SSeq (SAct (AMark 281)) (SChoice (SSeq (SAct (AMark 283)) (SReturn 0)) SSkip))) (SSeq (SLoop SSkip) (SReturn 0))).
-
-(* releaseList.release  rpc/export.go:288 *)
-Definition generated_prog_body_128 : stmt :=
-  (SSeq (SLoop (SSeq (SAct (AMark 290)) (SAct (ACallout)))) (SSeq (SLoop SSkip) (SReturn 0))).
-
-(* returnAnswer  rpc/import.go:234 *)
-Definition generated_prog_body_129 : stmt :=
-  (SSeq (SAct (AMark 236)) (SSeq (SAct (AWait)) (SSeq (SChoice (SSeq (SAct (AMark 238)) (SSeq (SAct (ACallout)) (SSeq (SAct (AMark 235)) (SSeq (SAct (ACallout)) (SSeq (SAct (AMark 239)) (SReturn 0)))))) SSkip) (SSeq (SAct (AMark 241)) (SSeq (SAct (ACallout)) (SSeq (SChoice (SSeq (SAct (AMark 243)) (SSeq (SAct (ACallout)) (SSeq (SAct (AMark 235)) (SSeq (SAct (ACallout)) (SSeq (SAct (AMark 244)) (SReturn 0)))))) SSkip) (SSeq (SChoice (SSeq (SAct (AMark 247)) (SSeq (SAct (ACallout)) (SSeq (SAct (AMark 235)) (SSeq (SAct (ACallout)) (SSeq (SAct (AMark 248)) (SReturn 0)))))) SSkip) (SSeq (SAct (AMark 250)) (SSeq (SAct (ACallout)) (SSeq (SAct (AMark 235)) (SSeq (SAct (ACallout)) (SReturn 0)))))))))))).
-
-(* senderLoopback.buildDisembargo  rpc/export.go:260 *)
-Definition generated_prog_body_130 : stmt :=
-  (SSeq (SChoice (SSeq (SAct (AMark 263)) (SReturn 0)) SSkip) (SSeq (SChoice (SSeq (SAct (AMark 267)) (SReturn 0)) SSkip) (SSeq (SChoice (SSeq (SAct (AMark 271)) (SReturn 0)) SSkip) (SSeq (SChoice (SSeq (SAct (AMark 275)) (SReturn 0)) SSkip) (SSeq (SLoop SSkip) (SSeq (SAct (AMark 283)) (SSeq (SReturn 0) (SReturn 0)))))))).
-
-(* streamCodec.Close  rpc/transport.go:231 *)
-Definition generated_prog_body_131 : stmt :=
-  (SSeq (SAct (AMark 232)) (SSeq (SCall 73 (* ctxReader.wait *) SSkip SSkip) (SSeq (SAct (AMark 234)) (SSeq (SReturn 0) (SSeq (SAct (AMark 232)) (SSeq (SCall 73 (* ctxReader.wait *) SSkip SSkip) (SReturn 0))))))).
-
-(* streamCodec.Decode  rpc/transport.go:222 *)
-Definition generated_prog_body_132 : stmt :=
-  (SSeq (SAct (AMark 224)) (SSeq (SReturn 0) (SReturn 0))).
-
-(* streamCodec.Encode  rpc/transport.go:210 *)
-Definition generated_prog_body_133 : stmt :=
-  (SSeq (SAct (AMark 211)) (SSeq (SChoice (SSeq (SAct (AMark 217)) (SReturn 0)) SSkip) (SSeq (SAct (AMark 219)) (SSeq (SReturn 0) (SReturn 0))))).
-
-(* streamCodec.SetPartialWriteTimeout  rpc/transport.go:227 *)
-Definition generated_prog_body_134 : stmt :=
-  (SReturn 0).
-
-(* transformsEqual  rpc/question.go:294 *)
-Definition generated_prog_body_135 : stmt :=
-  (SSeq (SChoice (SSeq (SAct (AMark 296)) (SReturn 0)) SSkip) (SSeq (SLoop (SChoice (SSeq (SAct (AMark 300)) (SReturn 0)) SSkip)) (SSeq (SAct (AMark 303)) (SSeq (SReturn 0) (SReturn 0))))).
-
-(* transport.Close  rpc/transport.go:175 *)
-Definition generated_prog_body_136 : stmt :=
-  (SSeq (SChoice (SSeq (SAct (AMark 177)) (SReturn 0)) SSkip) (SSeq (SChoice (SSeq (SAct (AMark 182)) (SReturn 0)) SSkip) (SSeq (SAct (AMark 184)) (SSeq (SReturn 0) (SReturn 0))))).
-
-(* transport.NewMessage  rpc/transport.go:100 *)
-Definition generated_prog_body_137 : stmt :=
-  (SSeq (SAct (AMark 102)) (SSeq (SChoice (SSeq (SAct (AMark 103)) (SReturn 0)) SSkip) (SSeq (SChoice (SSeq (SAct (AMark 109)) (SReturn 0)) SSkip) (SSeq (SChoice (SSeq (SAct (AMark 113)) (SReturn 0)) SSkip) (SSeq (SAct (AMark 139)) (SSeq (SReturn 0) (SReturn 0))))))).
-
-(* transport.NewMessage$1  rpc/transport.go:116 *)
-Definition generated_prog_body_138 : stmt :=
-  (SSeq (SChoice (SSeq (SAct (AMark 119)) (SReturn 0)) SSkip) (SSeq (SAct (AMark 123)) (SSeq (SChoice (SSeq (SAct (AMark 124)) (SReturn 0)) SSkip) (SSeq (SChoice (SChoice (SAct (AMark 130)) SSkip) SSkip) (SSeq (SAct (AMark 136)) (SSeq (SReturn 0) (SReturn 0))))))).
-
-(* transport.NewMessage$2  rpc/transport.go:139 *)
-Definition generated_prog_body_139 : stmt :=
-  (SReturn 0).
-
-(* transport.RecvMessage  rpc/transport.go:157 *)
-Definition generated_prog_body_140 : stmt :=
-  (SSeq (SAct (AMark 158)) (SSeq (SChoice (SSeq (SAct (AMark 159)) (SReturn 0)) SSkip) (SSeq (SChoice (SSeq (SAct (AMark 164)) (SReturn 0)) SSkip) (SSeq (SChoice (SSeq (SAct (AMark 168)) (SReturn 0)) SSkip) (SSeq (SAct (AMark 170)) (SSeq (SReturn 0) (SReturn 0))))))).
-
-(* transport.RecvMessage$1  rpc/transport.go:170 *)
-Definition generated_prog_body_141 : stmt :=
-  (SReturn 0).
-
-(* transport.SetPartialWriteTimeout  rpc/transport.go:150 *)
-Definition generated_prog_body_142 : stmt :=
-  (SReturn 0).
-
-(* uintSet.add  rpc/idgen.go:43 *)
-Definition generated_prog_body_143 : stmt :=
-  (SReturn 0).
-
-(* uintSet.has  rpc/idgen.go:37 *)
-Definition generated_prog_body_144 : stmt :=
-  (SSeq (SAct (AMark 40)) (SSeq (SReturn 0) (SReturn 0))).
-
-(* uintSet.min  rpc/idgen.go:62 *)
-Definition generated_prog_body_145 : stmt :=
-  (SSeq (SLoop (SSeq (SChoice SContinue SSkip) (SLoop (SChoice (SSeq (SAct (AMark 69)) (SReturn 0)) SSkip)))) (SSeq (SAct (AMark 73)) (SSeq (SReturn 0) (SReturn 0)))).
-
-(* uintSet.remove  rpc/idgen.go:54 *)
-Definition generated_prog_body_146 : stmt :=
-  (SReturn 0).
-
-(* unimplementedf  rpc/rpc.go:1431 *)
-Definition generated_prog_body_147 : stmt :=
-  (SSeq (SAct (AMark 1432)) (SSeq (SReturn 0) (SReturn 0))).
-
-Definition generated_prog : prog := [
-  (* 0 *) mkF "Conn.Bootstrap" true [mkC [] false 0 [mkE 0 [] false 0]] (Some generated_prog_body_0);
-  (* 1 *) mkF "Conn.Bootstrap$1" false [mkC [] true 0 [mkE 0 [] true 0]] (Some generated_prog_body_1);
-  (* 2 *) mkF "Conn.Bootstrap$2" true [mkC [] false 1 [mkE 0 [] false 0]] (Some generated_prog_body_2);
-  (* 3 *) mkF "Conn.Close" true [mkC [] false 0 [mkE 0 [] false 0]] (Some generated_prog_body_3);
-  (* 4 *) mkF "Conn.Done" true [mkC [] false 0 [mkE 0 [] false 0]] (Some generated_prog_body_4);
-  (* 5 *) mkF "Conn.addImport" false [mkC [] false 0 [mkE 0 [] false 0]] (Some generated_prog_body_5);
-  (* 6 *) mkF "Conn.embargo" false [mkC [] false 0 [mkE 0 [] false 0]] (Some generated_prog_body_6);
-  (* 7 *) mkF "Conn.fillPayloadCapTable" false [mkC [] false 0 [mkE 0 [] false 0]] (Some generated_prog_body_7);
-  (* 8 *) mkF "Conn.findEmbargo" false [mkC [] false 0 [mkE 0 [] false 0]] (Some generated_prog_body_8);
-  (* 9 *) mkF "Conn.findExport" false [mkC [] false 0 [mkE 0 [] false 0]] (Some generated_prog_body_9);
-  (* 10 *) mkF "Conn.handleBootstrap" true [mkC [] false 0 [mkE 0 [] false 0]] (Some generated_prog_body_10);
-  (* 11 *) mkF "Conn.handleCall" true [mkC [] false 0 [mkE 0 [] false 0]] (Some generated_prog_body_11);
-  (* 12 *) mkF "Conn.handleCall$1" false [mkC [] true 0 [mkE 0 [] true 0]] (Some generated_prog_body_12);
-  (* 13 *) mkF "Conn.handleCall$2" true [mkC [] false 0 [mkE 0 [] false 0]] (Some generated_prog_body_13);
-  (* 14 *) mkF "Conn.handleDisembargo" true [mkC [] false 0 [mkE 0 [] false 0]] (Some generated_prog_body_14);
-  (* 15 *) mkF "Conn.handleDisembargo$1" false [mkC [] true 0 [mkE 0 [] true 0]] (Some generated_prog_body_15);
-  (* 16 *) mkF "Conn.handleDisembargo$2" false [mkC [] true 0 [mkE 0 [] true 0]] (Some generated_prog_body_16);
-  (* 17 *) mkF "Conn.handleFinish" true [mkC [] false 0 [mkE 0 [] false 0]] (Some generated_prog_body_17);
-  (* 18 *) mkF "Conn.handleRelease" true [mkC [] false 0 [mkE 0 [] false 0]] (Some generated_prog_body_18);
-  (* 19 *) mkF "Conn.handleReturn" true [mkC [] false 0 [mkE 0 [] false 0]] (Some generated_prog_body_19);
-  (* 20 *) mkF "Conn.handleReturn$1" true [mkC [] false 0 [mkE 0 [] false 0]] (Some generated_prog_body_20);
-  (* 21 *) mkF "Conn.handleReturn$2" true [mkC [] false 0 [mkE 0 [] false 0]] (Some generated_prog_body_21);
-  (* 22 *) mkF "Conn.handleReturn$3" true [mkC [] false 0 [mkE 0 [] false 0]] (Some generated_prog_body_22);
-  (* 23 *) mkF "Conn.handleReturn$4" true [mkC [] false 0 [mkE 0 [] false 0]] (Some generated_prog_body_23);
-  (* 24 *) mkF "Conn.handleUnknownMessage" true [mkC [] false 0 [mkE 0 [] false 0]] (Some generated_prog_body_24);
-  (* 25 *) mkF "Conn.handleUnknownMessage$1" false [mkC [] true 0 [mkE 0 [] true 0]] (Some generated_prog_body_25);
-  (* 26 *) mkF "Conn.lockSender" false [mkC [0] false 0 [mkE 0 [0] true 0]] (Some generated_prog_body_26);
-  (* 27 *) mkF "Conn.newImportCallMessage" false [mkC [] false 0 [mkE 0 [] false 0]] (Some generated_prog_body_27);
-  (* 28 *) mkF "Conn.newPipelineCallMessage" false [mkC [] false 0 [mkE 0 [] false 0]] (Some generated_prog_body_28);
-  (* 29 *) mkF "Conn.newQuestion" false [mkC [] false 0 [mkE 0 [] false 0]] (Some generated_prog_body_29);
-  (* 30 *) mkF "Conn.newReturn" false [mkC [] true 0 [mkE 0 [] true 0]] (Some generated_prog_body_30);
-  (* 31 *) mkF "Conn.parseCall" false [mkC [0] true 0 [mkE 0 [0] true 0]] (Some generated_prog_body_31);
-  (* 32 *) mkF "Conn.parseReturn" false [mkC [0] false 0 [mkE 0 [0] false 0]] (Some generated_prog_body_32);
-  (* 33 *) mkF "Conn.receive" true [mkC [] false 0 [mkE 0 [] false 0]] (Some generated_prog_body_33);
-  (* 34 *) mkF "Conn.recvCap" false [mkC [0] false 0 [mkE 0 [0] false 0]; mkC [0] true 0 [mkE 0 [0] true 0]] (Some generated_prog_body_34);
-  (* 35 *) mkF "Conn.recvPayload" false [mkC [0] false 0 [mkE 0 [0] false 0]; mkC [0] true 0 [mkE 0 [0] true 0]] (Some generated_prog_body_35);
-  (* 36 *) mkF "Conn.releaseExport" false [mkC [] false 0 [mkE 0 [] false 0]] (Some generated_prog_body_36);
-  (* 37 *) mkF "Conn.releaseExports" false [mkC [] false 0 [mkE 0 [] false 0]] (Some generated_prog_body_37);
-  (* 38 *) mkF "Conn.report" false [mkC [] false 0 [mkE 0 [] false 0]] (Some generated_prog_body_38);
-  (* 39 *) mkF "Conn.reportf" false [mkC [] false 0 [mkE 0 [] false 0]] (Some generated_prog_body_39);
-  (* 40 *) mkF "Conn.sendCap" false [mkC [] false 0 [mkE 0 [] false 0]] (Some generated_prog_body_40);
-  (* 41 *) mkF "Conn.sendMessage" false [mkC [0] false 0 [mkE 0 [0] false 0]] (Some generated_prog_body_41);
-  (* 42 *) mkF "Conn.sendMessage.f" false [mkC [] true 0 [mkE 0 [] true 0]] None;
-  (* 43 *) mkF "Conn.shutdown" false [mkC [0] false 0 [mkE 0 [] false 0]] (Some generated_prog_body_43);
-  (* 44 *) mkF "Conn.startTask" false [mkC [0] false 0 [mkE 0 [0] false 1; mkE 1 [0] false 0]] (Some generated_prog_body_44);
-  (* 45 *) mkF "Conn.tryLockSender" false [mkC [0] false 0 [mkE 0 [0] true 0; mkE 1 [0] false 0]] (Some generated_prog_body_45);
-  (* 46 *) mkF "Conn.unlockSender" false [mkC [0] true 0 [mkE 0 [0] false 0]] (Some generated_prog_body_46);
-  (* 47 *) mkF "NewConn" true [mkC [] false 0 [mkE 0 [] false 0]] (Some generated_prog_body_47);
-  (* 48 *) mkF "NewConn$1" true [mkC [] false 1 [mkE 0 [] false 0]] (Some generated_prog_body_48);
-  (* 49 *) mkF "NewPackedStreamTransport" true [mkC [] false 0 [mkE 0 [] false 0]] (Some generated_prog_body_49);
-  (* 50 *) mkF "NewStreamTransport" true [mkC [] false 0 [mkE 0 [] false 0]] (Some generated_prog_body_50);
-  (* 51 *) mkF "NewTransport" true [mkC [] false 0 [mkE 0 [] false 0]] (Some generated_prog_body_51);
-  (* 52 *) mkF "annotate" false [mkC [] false 0 [mkE 0 [] false 0]] (Some generated_prog_body_52);
-  (* 53 *) mkF "annotater.errorf" false [mkC [] false 0 [mkE 0 [] false 0]] (Some generated_prog_body_53);
-  (* 54 *) mkF "answer.AllocResults" true [mkC [] false 0 [mkE 0 [] false 0]] (Some generated_prog_body_54);
-  (* 55 *) mkF "answer.Return" true [mkC [] false 1 [mkE 0 [] false 0]] (Some generated_prog_body_55);
-  (* 56 *) mkF "answer.destroy" false [mkC [] false 0 [mkE 0 [] false 0]] (Some generated_prog_body_56);
-  (* 57 *) mkF "answer.sendException" false [mkC [0] true 0 [mkE 0 [0] true 0]] (Some generated_prog_body_57);
-  (* 58 *) mkF "answer.sendReturn" false [mkC [0] true 0 [mkE 0 [0] true 0]] (Some generated_prog_body_58);
-  (* 59 *) mkF "answer.setBootstrap" false [mkC [] false 0 [mkE 0 [] false 0]] (Some generated_prog_body_59);
-  (* 60 *) mkF "answer.setPipelineCaller" false [mkC [] false 0 [mkE 0 [] false 0]] (Some generated_prog_body_60);
-  (* 61 *) mkF "basicEncoding.NewDecoder" true [mkC [] false 0 [mkE 0 [] false 0]] (Some generated_prog_body_61);
-  (* 62 *) mkF "basicEncoding.NewEncoder" true [mkC [] false 0 [mkE 0 [] false 0]] (Some generated_prog_body_62);
-  (* 63 *) mkF "bootstrapClient.Brand" true [mkC [] false 0 [mkE 0 [] false 0]] (Some generated_prog_body_63);
-  (* 64 *) mkF "bootstrapClient.Recv" true [mkC [] false 0 [mkE 0 [] false 0]] (Some generated_prog_body_64);
-  (* 65 *) mkF "bootstrapClient.Send" true [mkC [] false 0 [mkE 0 [] false 0]] (Some generated_prog_body_65);
-  (* 66 *) mkF "bootstrapClient.Shutdown" true [mkC [] false 0 [mkE 0 [] false 0]] (Some generated_prog_body_66);
-  (* 67 *) mkF "clearCapTable" false [mkC [] false 0 [mkE 0 [] false 0]] (Some generated_prog_body_67);
-  (* 68 *) mkF "ctxReader.Read" true [mkC [] false 0 [mkE 0 [] false 0]] (Some generated_prog_body_68);
-  (* 69 *) mkF "ctxReader.Read$1" true [mkC [] false 0 [mkE 0 [] false 0]] (Some generated_prog_body_69);
-  (* 70 *) mkF "ctxReader.leakyRead" false [mkC [] false 0 [mkE 0 [] false 0]] (Some generated_prog_body_70);
-  (* 71 *) mkF "ctxReader.leakyRead$1" true [mkC [] false 0 [mkE 0 [] false 0]] (Some generated_prog_body_71);
-  (* 72 *) mkF "ctxReader.setReadContext" false [mkC [] false 0 [mkE 0 [] false 0]] (Some generated_prog_body_72);
-  (* 73 *) mkF "ctxReader.wait" false [mkC [] false 0 [mkE 0 [] false 0]] (Some generated_prog_body_73);
-  (* 74 *) mkF "ctxWriteCloser.Write" true [mkC [] false 0 [mkE 0 [] false 0]] (Some generated_prog_body_74);
-  (* 75 *) mkF "ctxWriteCloser.setWriteContext" false [mkC [] false 0 [mkE 0 [] false 0]] (Some generated_prog_body_75);
-  (* 76 *) mkF "ctxWriteCloser.write" false [mkC [] false 0 [mkE 0 [] false 0]] (Some generated_prog_body_76);
-  (* 77 *) mkF "ctxWriteCloser.write$1" true [mkC [] false 0 [mkE 0 [] false 0]] (Some generated_prog_body_77);
-  (* 78 *) mkF "disconnected" false [mkC [] false 0 [mkE 0 [] false 0]] (Some generated_prog_body_78);
-  (* 79 *) mkF "embargo.Brand" true [mkC [] false 0 [mkE 0 [] false 0]] (Some generated_prog_body_79);
-  (* 80 *) mkF "embargo.Recv" true [mkC [] false 0 [mkE 0 [] false 0]] (Some generated_prog_body_80);
-  (* 81 *) mkF "embargo.Send" true [mkC [] false 0 [mkE 0 [] false 0]] (Some generated_prog_body_81);
-  (* 82 *) mkF "embargo.Send$1" true [mkC [] false 0 [mkE 0 [] false 0]] (Some generated_prog_body_82);
-  (* 83 *) mkF "embargo.Shutdown" true [mkC [] false 0 [mkE 0 [] false 0]] (Some generated_prog_body_83);
-  (* 84 *) mkF "embargo.end" false [mkC [] false 0 [mkE 0 [] false 0]] (Some generated_prog_body_84);
-  (* 85 *) mkF "embargo.lift" false [mkC [] false 0 [mkE 0 [] false 0]] (Some generated_prog_body_85);
-  (* 86 *) mkF "errorAnswer" false [mkC [] false 0 [mkE 0 [] false 0]] (Some generated_prog_body_86);
-  (* 87 *) mkF "errorValue.Load" true [mkC [] false 0 [mkE 0 [] false 0]] (Some generated_prog_body_87);
-  (* 88 *) mkF "errorValue.Set" true [mkC [] false 0 [mkE 0 [] false 0]] (Some generated_prog_body_88);
-  (* 89 *) mkF "errorf" false [mkC [] false 0 [mkE 0 [] false 0]] (Some generated_prog_body_89);
-  (* 90 *) mkF "extractCapTable" false [mkC [] false 0 [mkE 0 [] false 0]] (Some generated_prog_body_90);
-  (* 91 *) mkF "fail" false [mkC [] false 0 [mkE 0 [] false 0]] (Some generated_prog_body_91);
-  (* 92 *) mkF "idgen.next" false [mkC [] false 0 [mkE 0 [] false 0]] (Some generated_prog_body_92);
-  (* 93 *) mkF "idgen.remove" false [mkC [] false 0 [mkE 0 [] false 0]] (Some generated_prog_body_93);
-  (* 94 *) mkF "importClient.Brand" true [mkC [] false 0 [mkE 0 [] false 0]] (Some generated_prog_body_94);
-  (* 95 *) mkF "importClient.Recv" true [mkC [] false 0 [mkE 0 [] false 0]] (Some generated_prog_body_95);
-  (* 96 *) mkF "importClient.Recv$1" true [mkC [] false 0 [mkE 0 [] false 0]] (Some generated_prog_body_96);
-  (* 97 *) mkF "importClient.Send" true [mkC [] false 0 [mkE 0 [] false 0]] (Some generated_prog_body_97);
-  (* 98 *) mkF "importClient.Send$1" true [mkC [] false 0 [mkE 0 [] false 0]] (Some generated_prog_body_98);
-  (* 99 *) mkF "importClient.Send$2" true [mkC [] false 0 [mkE 0 [] false 0]] (Some generated_prog_body_99);
-  (* 100 *) mkF "importClient.Send$3" true [mkC [] false 0 [mkE 0 [] false 0]] (Some generated_prog_body_100);
-  (* 101 *) mkF "importClient.Send$4" true [mkC [] false 0 [mkE 0 [] false 0]] (Some generated_prog_body_101);
-  (* 102 *) mkF "importClient.Send$5" true [mkC [] false 0 [mkE 0 [] false 0]] (Some generated_prog_body_102);
-  (* 103 *) mkF "importClient.Send$6" true [mkC [] false 0 [mkE 0 [] false 0]] (Some generated_prog_body_103);
-  (* 104 *) mkF "importClient.Send$7" true [mkC [] false 1 [mkE 0 [] false 0]] (Some generated_prog_body_104);
-  (* 105 *) mkF "importClient.Send$8" true [mkC [] false 0 [mkE 0 [] false 0]] (Some generated_prog_body_105);
-  (* 106 *) mkF "importClient.Shutdown" true [mkC [] false 0 [mkE 0 [] false 0]] (Some generated_prog_body_106);
-  (* 107 *) mkF "importClient.Shutdown$1" false [mkC [] true 0 [mkE 0 [] true 0]] (Some generated_prog_body_107);
-  (* 108 *) mkF "isTimeout" false [mkC [] false 0 [mkE 0 [] false 0]] (Some generated_prog_body_108);
-  (* 109 *) mkF "newStreamCodec" false [mkC [] false 0 [mkE 0 [] false 0]] (Some generated_prog_body_109);
-  (* 110 *) mkF "packedEncoding.NewDecoder" true [mkC [] false 0 [mkE 0 [] false 0]] (Some generated_prog_body_110);
-  (* 111 *) mkF "packedEncoding.NewEncoder" true [mkC [] false 0 [mkE 0 [] false 0]] (Some generated_prog_body_111);
-  (* 112 *) mkF "parseMessageTarget" false [mkC [] false 0 [mkE 0 [] false 0]] (Some generated_prog_body_112);
-  (* 113 *) mkF "parseTransform" false [mkC [] false 0 [mkE 0 [] false 0]] (Some generated_prog_body_113);
-  (* 114 *) mkF "question.PipelineRecv" true [mkC [] false 0 [mkE 0 [] false 0]] (Some generated_prog_body_114);
-  (* 115 *) mkF "question.PipelineRecv$1" true [mkC [] false 0 [mkE 0 [] false 0]] (Some generated_prog_body_115);
-  (* 116 *) mkF "question.PipelineSend" true [mkC [] false 0 [mkE 0 [] false 0]] (Some generated_prog_body_116);
-  (* 117 *) mkF "question.PipelineSend$1" true [mkC [] false 0 [mkE 0 [] false 0]] (Some generated_prog_body_117);
-  (* 118 *) mkF "question.PipelineSend$2" true [mkC [] false 0 [mkE 0 [] false 0]] (Some generated_prog_body_118);
-  (* 119 *) mkF "question.PipelineSend$3" true [mkC [] false 0 [mkE 0 [] false 0]] (Some generated_prog_body_119);
-  (* 120 *) mkF "question.PipelineSend$4" true [mkC [] false 0 [mkE 0 [] false 0]] (Some generated_prog_body_120);
-  (* 121 *) mkF "question.PipelineSend$5" true [mkC [] false 0 [mkE 0 [] false 0]] (Some generated_prog_body_121);
-  (* 122 *) mkF "question.PipelineSend$6" true [mkC [] false 1 [mkE 0 [] false 0]] (Some generated_prog_body_122);
-  (* 123 *) mkF "question.PipelineSend$7" true [mkC [] false 0 [mkE 0 [] false 0]] (Some generated_prog_body_123);
-  (* 124 *) mkF "question.handleCancel" true [mkC [] false 0 [mkE 0 [] false 0]] (Some generated_prog_body_124);
-  (* 125 *) mkF "question.handleCancel$1" true [mkC [] false 0 [mkE 0 [] false 0]] (Some generated_prog_body_125);
-  (* 126 *) mkF "question.handleCancel$2" false [mkC [] true 0 [mkE 0 [] true 0]] (Some generated_prog_body_126);
-  (* 127 *) mkF "question.mark" false [mkC [] false 0 [mkE 0 [] false 0]] (Some generated_prog_body_127);
-  (* 128 *) mkF "releaseList.release" false [mkC [] false 0 [mkE 0 [] false 0]] (Some generated_prog_body_128);
-  (* 129 *) mkF "returnAnswer" false [mkC [] false 0 [mkE 0 [] false 0]] (Some generated_prog_body_129);
-  (* 130 *) mkF "senderLoopback.buildDisembargo" false [mkC [] false 0 [mkE 0 [] false 0]] (Some generated_prog_body_130);
-  (* 131 *) mkF "streamCodec.Close" true [mkC [] false 0 [mkE 0 [] false 0]] (Some generated_prog_body_131);
-  (* 132 *) mkF "streamCodec.Decode" true [mkC [] false 0 [mkE 0 [] false 0]] (Some generated_prog_body_132);
-  (* 133 *) mkF "streamCodec.Encode" true [mkC [] false 0 [mkE 0 [] false 0]] (Some generated_prog_body_133);
-  (* 134 *) mkF "streamCodec.SetPartialWriteTimeout" true [mkC [] false 0 [mkE 0 [] false 0]] (Some generated_prog_body_134);
-  (* 135 *) mkF "transformsEqual" false [mkC [] false 0 [mkE 0 [] false 0]] (Some generated_prog_body_135);
-  (* 136 *) mkF "transport.Close" true [mkC [] false 0 [mkE 0 [] false 0]] (Some generated_prog_body_136);
-  (* 137 *) mkF "transport.NewMessage" true [mkC [] false 0 [mkE 0 [] false 0]] (Some generated_prog_body_137);
-  (* 138 *) mkF "transport.NewMessage$1" true [mkC [] false 0 [mkE 0 [] false 0]] (Some generated_prog_body_138);
-  (* 139 *) mkF "transport.NewMessage$2" true [mkC [] false 0 [mkE 0 [] false 0]] (Some generated_prog_body_139);
-  (* 140 *) mkF "transport.RecvMessage" true [mkC [] false 0 [mkE 0 [] false 0]] (Some generated_prog_body_140);
-  (* 141 *) mkF "transport.RecvMessage$1" true [mkC [] false 0 [mkE 0 [] false 0]] (Some generated_prog_body_141);
-  (* 142 *) mkF "transport.SetPartialWriteTimeout" true [mkC [] false 0 [mkE 0 [] false 0]] (Some generated_prog_body_142);
-  (* 143 *) mkF "uintSet.add" false [mkC [] false 0 [mkE 0 [] false 0]] (Some generated_prog_body_143);
-  (* 144 *) mkF "uintSet.has" false [mkC [] false 0 [mkE 0 [] false 0]] (Some generated_prog_body_144);
-  (* 145 *) mkF "uintSet.min" false [mkC [] false 0 [mkE 0 [] false 0]] (Some generated_prog_body_145);
-  (* 146 *) mkF "uintSet.remove" false [mkC [] false 0 [mkE 0 [] false 0]] (Some generated_prog_body_146);
-  (* 147 *) mkF "unimplementedf" false [mkC [] false 0 [mkE 0 [] false 0]] (Some generated_prog_body_147)
-].
+Definition generated_prog : prog := [ mkF "TRANSLATOR FAILED CLOSED in Conn.handleReturn" true [mkC [0] false 0 []] None ].
